@@ -12,2275 +12,2117 @@ Definition show_fres (r : fres) : string :=
   end.
 Definition check (rs : list rune) : string := digest (show_fres (format_res rs)).
 Definition full (rs : list rune) : string := show_fres (format_res rs).
-Eval vm_compute in ("<<<M3983>>>" ++ check (runes_of_ascii "MetaData
-
-pack
-	{ 
-}
-	MetaData
-trueish {
-string o
-    ,	u // @lengthOf(
-    roots
-,
-Header 
-calculatedFrom
-`doc`	, zchar[ 42
-    ]
-
-metadata
-`u8 x,` ,Packet
-    lengthOf
-
-,  u128
-    lengthOf
-
-    , 
-} 
-root
-
-packet
-
-Logon
-
-{ repeat 	 /// triple
-
-zchar[
-    7
-	] 
-    // packet A { u8 x, }
-
-	// `tick` ""quote"" 'q'
-	  roots
-	,
-    match u  as x
+Eval vm_compute in ("<<<M4431>>>" ++ check (runes_of_ascii "root packet
+	crc
 
     {
-	[""" ++ [28040; 24687]%N ++ runes_of_ascii """
-    ,
-	0
-,
+@calculatedFrom(
+    ""1""
 
-""a	b""
-// @lengthOf(
-
-	,
-
-3/// triple
-	  ,""a\""b"" ,""// no comment"" ,
-""packet""
-,""`tick`"" 
-] :o ,  [  0 
-, ""x y""
-]:	u
-
+    )
+    f32
+x	, 
+@calculatedFrom( ""// no comment""
+    )  //x
+	string
+chars ,
+@calculatedFrom(
 ""a\""b""
-    :pack[ 65535
-
-,
-
-    007, 
-""" ++ [233]%N ++ runes_of_ascii "t" ++ [233]%N ++ runes_of_ascii """
-	    // " ++ [27880; 37322]%N ++ runes_of_ascii "
-  // @lengthOf(
-	, 42 ]// trailing space 
-		:f32a	255: i8i8	//	t
-      , 
-0123456789
-
-:
-Pad , },
-Foo	,
-    @calculatedFrom( ""x y""
-
-    )
-
-body
-    {repeat string metadata`it's` ,
-    repeat
-    zchar  x_y_z
-
-,
-    lengthOf{	Logon
-    pack , match	options1
-
-as leftPad// c
-    {	//x
-	10
-:
-
-a1 , """ ++ [28040; 24687]%N ++ runes_of_ascii """
-
-: A ,
-[
-
-// trailing space 
-// " ++ [128512]%N ++ runes_of_ascii " emoji
-    """ ++ [28040; 24687]%N ++ runes_of_ascii """
-
-    ,
-
-    65535
-	,
-    0123456789 , 0 ]:
-
-i64_
-
-    ,
-
-    1  // " ++ [27880; 37322]%N ++ runes_of_ascii "
-:
-	string_  ,
-65535
-	:
-calculatedFrom, }
-    , crc{u128
-
-    ,
-u128@lengthOf(
-	x
+	)
+	@rightPad(
 )
-	, u16
+	@tag(7
+    )	match A
 
-falsey
-@lengthOf(  u )
-
-    ,	} ,
-
-    char[ 42 ]
-options1	@calculatedFrom( ""packet"" )	`u8 x,`	,
-
-}
-    ,
-float  /// triple
-	float `u8 x,`	,
-    }, match
-packetx
-as 
-T
-	{ ""packet""
-	// @lengthOf(
-      // @lengthOf(
-    : As ,
-    007  :BodyLength
-
-,00 : trueish 
-, [ ""abc"",
-	10
-, 3 
-, 10,  007 , 
-        // " ++ [128512]%N ++ runes_of_ascii " emoji
-	// c
-      ""\n"", 1
-	//	t
-
-  // a // b
-    ]
-
-:	_x
-
-    , } ,o
-
-`say ""hi""`	, @leftPad (
-'0')  @tag(
-10
-) @calculatedFrom(
-""\" ++ [233]%N ++ runes_of_ascii """
-)  u32 	 //	t
-	  i64_
-    // `tick` ""quote"" 'q'
-  	`{ , }`, x  body`line1
-line2` 	 //	t
-
-, 
-}	packet repeatCount{
-
-    i64
-	rootA
-
-    @calculatedFrom(
-    """ ++ [128512]%N ++ runes_of_ascii """
-) `" ++ [28040; 24687; 31867; 22411]%N ++ runes_of_ascii "` 
-,  @rightPad
-(' '
-    ) @rightPad	(
-    )
-	int32  rootA
-
-    @calculatedFrom(  ""{,}""
-    ) ,  i16 BodyLength  // " ++ [27880; 37322]%N ++ runes_of_ascii "
-	,
-@calculatedFrom(""`tick`"" 
-) Logon
-    lengthOf
-
-`two words`
-    ,  zchar[	4294967296]	x_y_z
-	`" ++ [28040; 24687; 31867; 22411]%N ++ runes_of_ascii "`
-,
-    string zchar`say ""hi""` 
-      // `tick` ""quote"" 'q'
-  // c
-    , @tag(
-    1
-	) f32 x_y_z`it's`  ,  }root	packet
-
-    string_
-    {	// @lengthOf(
-  @leftPad 
-(	'0'
-    )// a // b
-		@calculatedFrom(
-""// no comment"" )
-@leftPad( ) // " ++ [27880; 37322]%N ++ runes_of_ascii "
-char[ 
-1
-
-    ] tag`say ""hi""`
-	,
-@calculatedFrom(// " ++ [27880; 37322]%N ++ runes_of_ascii "
-	""it's"" )match 
-BodyLength
-	as
-A
-{ 255
-	: Foo , } 
-,
-
-u16
-    x_y_z
-    @calculatedFrom(  ""CRC32""
-	) ,
-	o MetaDataX	`// not a comment`
-,
-    options1
-@lengthOf( x)
-
-,  match
-float
-as
-    A  {
-	[65535
-	] :
-leftPad  , [007
-
-,
-
-    7 ,
-
+    as
+	matchKey {
+[ 42 ]
+: msg_type""x y"" :	lengthOf
     ""a\\""
 
-,	1
-	]
-:
+: packetx/// triple
+,[	""`tick`"" , ""x y""
+	,""a\""b"" , 	 // packet A { u8 x, }
+    ""x y""
+    , 00
 
-msg_type ,10 : u128""" ++ [28040; 24687]%N ++ runes_of_ascii """: 
-As
-
-, }
-
-,} ")).
-Eval vm_compute in ("<<<M1339>>>" ++ check (runes_of_ascii "packet
-    body {
-repeat // c
-char[ 65535 ] float ,@calculatedFrom(
-//
-// c
-""{,}"" )i64_ f32a `tab	here`,
-    stringy @lengthOf(	options1 ) `a\` , }root // `tick` ""quote"" 'q'
-packet pack
-{len @calculatedFrom(""x y"" )
-    // trailing space 
-    `say ""hi""`,
-    match msg_type as
-    lengthOf
-    { 10 : // c
-len ,[ 007 ,
-    65535
-,65535,
-    // trailing space 
-    ""a	b""
-// packet A { u8 x, }
-// @lengthOf(
-, 3 // @lengthOf(
-,0123456789
-    , ""// no comment""
-]:
-u,[ 10,	""" ++ [233]%N ++ runes_of_ascii "t" ++ [233]%N ++ runes_of_ascii """
+    ,""it's""
 ,
-1
-    , 7 ,10 ] // `tick` ""quote"" 'q'
-: // `tick` ""quote"" 'q'
-_x ,
-[ // a // b
-""1"" ,	""`tick`"" ,7,  ""1"" ]
-:u128 ,
-    65535 : Pad ,// packet A { u8 x, }
-}, @rightPad ( '0')
-match As as zchar
-    {[""" ++ [128512]%N ++ runes_of_ascii """, 0
-    ]: // trailing space 
-uint8x }
-, falsey
-{ float64 A@calculatedFrom(
-    // packet A { u8 x, }
-    ""{,}""
-    ) , match	As as asx {
-    // trailing space 
-    3 /// triple
-: Pad ,
-}, repeat
-    char[] len`crlf
-line`
+
+    7	, """" ]
+:	Logon
+
+    }	// a // b
+
+  ,
+@lengthOf(falsey  ) 
+repeat
+
+falsey `u8 x,`,u8x
+
+{ int16 lengthOf
+    `u8 x,`	,
+
+    f32a 	 // " ++ [128512]%N ++ runes_of_ascii " emoji
+    packetx
     , }
 ,
-//x
-// c
-zchar , match
-Logon as
-    u // " ++ [27880; 37322]%N ++ runes_of_ascii "
-{  ""{,}""
-:
-    x_y_z
-[""packet""
-] :
-msg_type
-    , 0 // c
-: calculatedFrom , [
-    ""x y""
-, ""a\\"",
-42 ,
-    42
-,// " ++ [128512]%N ++ runes_of_ascii " emoji
-""a\""b""	,
-    /// triple
-    """ ++ [28040; 24687]%N ++ runes_of_ascii """
-,""\n"" ] : asx
-    """" :Pad , [
-    """ ++ [233]%N ++ runes_of_ascii "t" ++ [233]%N ++ runes_of_ascii """ ]
-:
-    Z9_
-// packet A { u8 x, }
-//
-} ,repeat string x_y_z ,
-repeat stringy
-{ repeat chars // a // b
-chars, u8
-    charz
-// trailing space 
-// packet A { u8 x, }
-`{ , }` , match MetaDataX as packetx { [ ""CRC32"" ]
-: metadata , // " ++ [128512]%N ++ runes_of_ascii " emoji
-[ """ ++ [128512]%N ++ runes_of_ascii """,
-""CRC32"" ,007 ,
-""x y"" , ""1""
+	lengthOf
+	@lengthOf(
+
+calculatedFrom
+
+    )
+    ,  @rightPad
+
+('0' )
+
+f32
+    f32a
+    ,  
+  //
+
+	// packet A { u8 x, }
+  	@calculatedFrom(
+	""" ++ [128512]%N ++ runes_of_ascii """ 
+)
+    tag
+    ,
+	// " ++ [27880; 37322]%N ++ runes_of_ascii "
+
+  //x
+
+	string  zchar `// not a comment` , }
+	MetaData 
+matchKey {} packet uint8x  {  
+      // a // b
+  	//x
+    repeat
+lengthOf 
     // a // b
-    ,
-// a // b
-// " ++ [27880; 37322]%N ++ runes_of_ascii "
-""abc"" // trailing space 
-, 42
-] : calculatedFrom	,
-    [
-42
-    ,
-    65535 ] :
-// " ++ [128512]%N ++ runes_of_ascii " emoji
-//
-Pad
-, ""\" ++ [233]%N ++ runes_of_ascii """ : msg_type ,
-    //
-    }, }	, }
-packet msg_type{ u8x @calculatedFrom(""{,}"" ), rootA uint8x
-, //x
-f64 falsey	`a\`,
-repeat
-// packet A { u8 x, }
-// packet A { u8 x, }
-char[]
-asx ,
-repeat
-// packet A { u8 x, }
-// packet A { u8 x, }
-chars
-As `two words`,
-    int{ repeat matchKey	`u8 x,`,
-}	, match lengthOf
-as trueish {""\n"" : Foo ,""\" ++ [233]%N ++ runes_of_ascii """ :i8i8, }
-, } // c
-options { } options { f32a =
-    7 ; }
-")).
-Eval vm_compute in ("<<<M1100>>>" ++ check (runes_of_ascii "options
-{} packet
-    // packet A { u8 x, }
-    packetx {
-crc charz
-``
-    ,leftPad ,
-@tag(3 ) repeat
-uint64  u128 `doc` ,
-@tag(
-    007 )
-// c
-// `tick` ""quote"" 'q'
-Pad roots /// triple
+// @lengthOf(
+{ u16 
+u128 //
 ,
-    @calculatedFrom(// `tick` ""quote"" 'q'
-""CRC32"" ) u8x metadata , @tag( 1 ) zchar[0123456789 ]  i8i8  `a\` , match a1
-as
-As { ""a	b""
-:roots, [
-    ""\" ++ [233]%N ++ runes_of_ascii """ , ""abc"" //
-] :string_ , }  ,
-repeat Header { match
+
+    Pad, }  ,
+@tag(  4294967296
+    )	@calculatedFrom(	""x y""  ) @tag( 0
+	)char[	4294967296
+
+]
+options1 @calculatedFrom(
+""CRC32""
+
+    ) 
+, @rightPad
+
+    (
+	'\x00'
+)
+    repeat 
+string
+	asx
+`a\`	// " ++ [128512]%N ++ runes_of_ascii " emoji
+
+,	@calculatedFrom(
+""" ++ [128512]%N ++ runes_of_ascii """ )
+char[
+    255
+    ]
+    len@calculatedFrom(
+
+    """ ++ [233]%N ++ runes_of_ascii "t" ++ [233]%N ++ runes_of_ascii """
+	) , @calculatedFrom( 	 //x
+    ""{,}""	)repeat
+
+zchar	calculatedFrom
+,
+@calculatedFrom(  """ ++ [233]%N ++ runes_of_ascii "t" ++ [233]%N ++ runes_of_ascii """  )  string
+
+o  @lengthOf(
+
+u
+
+    )
+	, uint64 falsey 
 // " ++ [128512]%N ++ runes_of_ascii " emoji
-// c
-f32a as
-    _x { 4294967296 :
-    // @lengthOf(
-    repeatCount , 7
-//	t
-// @lengthOf(
-:
-    //x
-    u8x
-    , 7 : As ,}// " ++ [128512]%N ++ runes_of_ascii " emoji
-, i64
-repeatCount @lengthOf( a1 ) ,}
-    ,
-// " ++ [128512]%N ++ runes_of_ascii " emoji
-// " ++ [27880; 37322]%N ++ runes_of_ascii "
-} packet
-pack
-{zchar[ // a // b
-0 ] stringy, } /// triple
-root
-packet
-As {
-    // @lengthOf(
-    match // `tick` ""quote"" 'q'
-u8x as packetx //	t
-{
-    7 : uint8x
-65535 :int
-1: T  ,
-    ""{,}""
-    :
-Foo
-    ,  0123456789
-// " ++ [128512]%N ++ runes_of_ascii " emoji
-// @lengthOf(
-: Logon
-    , [ 65535
-// " ++ [27880; 37322]%N ++ runes_of_ascii "
-// `tick` ""quote"" 'q'
-] : len , }
-    ,repeat
-    lengthOf  metadata,@calculatedFrom(""" ++ [233]%N ++ runes_of_ascii "t" ++ [233]%N ++ runes_of_ascii """ ) repeat zchar[65535 ] As
-`doc` , char[// trailing space 
-7 ] float // @lengthOf(
-@calculatedFrom(
-    //
-    """" )
-    , float32 a1`it's`, @tag(
-3	) char[]
-BodyLength// @lengthOf(
-`line1
-line2` , match int as asx{[""" ++ [28040; 24687]%N ++ runes_of_ascii """
-, 0 ] :
-x_y_z , 1 :	Packet , ""{,}""  : falsey,255
-    : charz , [
-    ""{,}"" , 0123456789
-] : uint8x , } ,
-crc @calculatedFrom(
-    ""\" ++ [233]%N ++ runes_of_ascii """
-    // " ++ [128512]%N ++ runes_of_ascii " emoji
-    )`crlf
-line`
-    ,	match packetx
-as Pad { ""packet""://
-BodyLength,} , @lengthOf( BodyLength) @tag(
-// packet A { u8 x, }
-//x
-00
-)@lengthOf( As)match charz  as len {[//x
-""x y""]:_x //x
-""it's"": i64_ , 0123456789: metadata
-// packet A { u8 x, }
-//x
-""" ++ [128512]%N ++ runes_of_ascii """ : trueish, 1: Logon
-, }
-    , } //	t")).
-Eval vm_compute in ("<<<M4574>>>" ++ check (runes_of_ascii "packet u128 {
-    @rightPad(' ')
-    uint8x {
-        zchar {
-            match u8x as Logon {
-                007 : Packet,
-                [
-                    255, 00, 42, 3, ""`tick`"",
-                    ""a\\""
-                ] : int,
-            },
-            metadata `" ++ [28040; 24687; 31867; 22411]%N ++ runes_of_ascii "`,
-            repeat char[] Header,
-            a1,
-        },
-        match leftPad as rootA {
-            0123456789 : int,
-            0 : pack,
-        },
-        tag {
-            // " ++ [27880; 37322]%N ++ runes_of_ascii "
-            string_,
-            pack calculatedFrom,
-        },// packet A { u8 x, }
-    },
-    //x
-    zchar[255] msg_type,
-    i32 x,
-    match options1 as options1 {
-        10 : zchar,
-        42 : pack,
-        [""a\\""] : As,
-        [42, ""a\""b""] : asx,
-        [10] : a1,
-        [00] : chars,
-    },
-    // `tick` ""quote"" 'q'
-    //	t
-    char[0] Header @lengthOf(chars) `it's`,
-    //
-    //	t
-    match x_y_z as u8x {
-        65535 : Logon,
-        """ ++ [233]%N ++ runes_of_ascii "t" ++ [233]%N ++ runes_of_ascii """ : Header,
-        ""a	b"" : metadata,
-        [
-            255, 1, 255, ""a\\"", ""a	b"",
-            ""{,}"", """", """ ++ [28040; 24687]%N ++ runes_of_ascii """
-        ] : f32a,
-        3 : len,
-    },
-    @leftPad()
-    @calculatedFrom(""a\\"")
-    int64 leftPad `" ++ [233]%N ++ runes_of_ascii "`,
-    @calculatedFrom(""packet"")
-    @tag(10)
-    @calculatedFrom(""a\\"")
-    string Packet @lengthOf(BodyLength),//x
-    @leftPad('0')
-    repeat char[] Logon,
-    @tag(00)
-    match u8x as Z9_ {
-        [10] : lengthOf,
-        0123456789 : _x,
-        ""packet"" : i64_,
-    },
-}")).
-Eval vm_compute in ("<<<M1393>>>" ++ check (runes_of_ascii "options {
-    StringPrefixLenType = u16;
-    ArrayPrefixLenType = u16;
-}
+@calculatedFrom( ""\" ++ [233]%N ++ runes_of_ascii """
+)
 
-packet SampleBinary {
-    uint16 MsgType `" ++ [28040; 24687; 31867; 22411]%N ++ runes_of_ascii "`,
-    u16 BodyLenght @lengthOf(Body) `" ++ [28040; 24687; 20307; 38271; 24230]%N ++ runes_of_ascii "`,
-    match MsgType as Body {
-        1 : Logon,
-        2 : Logout,
-        3 : Heartbeat,
-        4 : RiskControlRequest,
-        5 : RiskControlResponse,
-    },
-    @calculatedFrom(""CRC32"")
-    u32 Ckecksum `" ++ [26657; 39564; 21644]%N ++ runes_of_ascii "`,
-}
+    ,	zchar[	65535 ] 
+stringy @calculatedFrom(
 
-packet Logon {
-    @leftPad('0')
-    char[10] UserName `" ++ [29992; 25143; 21517]%N ++ runes_of_ascii "`,
-    string Password `" ++ [23494; 30721]%N ++ runes_of_ascii "`,
-    uint64 ClientId `" ++ [23458; 25143; 31471]%N ++ runes_of_ascii "ID`,
-    u16 HeartbeatInterval `" ++ [24515; 36339; 38388; 38548]%N ++ runes_of_ascii "`,
-}
+    ""1""
+) 
+,
 
-packet Logout {
-    @rightPad('0')
-    char[10] UserName `" ++ [29992; 25143; 21517]%N ++ runes_of_ascii "`,
-    uint64 ClientId `" ++ [23458; 25143; 31471]%N ++ runes_of_ascii "ID`,
-}
-
-packet Heartbeat {
-}
-
-packet RiskControlRequest {
-    string UniqueOrderId `" ++ [21807; 19968; 35746; 21333; 21495]%N ++ runes_of_ascii "`,
-    char[16] ClOrdID `" ++ [23458; 25143; 35746; 21333; 21495]%N ++ runes_of_ascii "`,
-    char[3] MarketID `" ++ [24066; 22330]%N ++ runes_of_ascii "id`,
-    char[12] SecurityID `" ++ [35777; 21048; 20195; 30721]%N ++ runes_of_ascii "`,
-    char Side `" ++ [20080; 21334; 26041; 21521]%N ++ runes_of_ascii "`,
-    char OrderType `" ++ [35746; 21333; 31867; 22411]%N ++ runes_of_ascii "`,
-    u64 Price `" ++ [20215; 26684]%N ++ runes_of_ascii "`,
-    u32 Qty `" ++ [25968; 37327]%N ++ runes_of_ascii "`,
-    repeat string ExtraInfo `" ++ [38468; 21152; 20449; 24687]%N ++ runes_of_ascii "`,
-    repeat SubOrder {
-        char[16] ClOrdID `" ++ [23376; 35746; 21333; 21495]%N ++ runes_of_ascii "`,
-        u64 Price `" ++ [23376; 35746; 21333; 20215; 26684]%N ++ runes_of_ascii "`,
-        u32 Qty `" ++ [23376; 35746; 21333; 25968; 37327]%N ++ runes_of_ascii "`,
-    },
-}
-
-packet RiskControlResponse {
-    string UniqueOrderId `" ++ [21807; 19968; 35746; 21333; 21495]%N ++ runes_of_ascii "`,
-    i32 Status `" ++ [29366; 24577]%N ++ runes_of_ascii "`,
-    string Msg `" ++ [32467; 26524; 20449; 24687]%N ++ runes_of_ascii "`,
-    repeat Detail,
-}
-
-packet Detail {
-    string RuleName `" ++ [35268; 21017; 21517; 31216]%N ++ runes_of_ascii "`,
-    u16 Code `" ++ [21407; 22240; 20195; 30721]%N ++ runes_of_ascii "`,
-}")).
-Eval vm_compute in ("<<<M4383>>>" ++ check (runes_of_ascii "packet u8x {
-    @tag(10)
-    char[7] MetaDataX,
-    match Z9_ as Header {
-        ""a\\"" : stringy,
-        ""// no comment"" : u128,
-        0123456789 : matchKey,
-        10 : BodyLength,
-        65535 : asx,
-        00 : pack,
-    },
-    @tag(255)
-    msg_type `it's`,
-    @lengthOf(A)
-    leftPad @lengthOf(Header) `crlf
-        line`,
-    @calculatedFrom(""1"")
-    repeat int8 o,
-    @rightPad('\x00')
-    string pack @calculatedFrom(""// no comment""),
-    @lengthOf(Z9_)
-    match u128 as BodyLength {
-        //
-        [""\n"", ""a\\""] : Logon,
-        0 : As,
-    },
-    char[] x,
-}
-
-packet Packet {
-    @calculatedFrom(""// no comment"")
-    x_y_z,
-    @leftPad()
-    zchar[65535] As @calculatedFrom(""1"") `tab	here`,
-    zchar[10] f32a,
-    @tag(7)
-    char[0123456789] matchKey `say ""hi""`,
-}
-
-root packet string_ {
-    @tag(0)
-    asx `// not a comment`,
-    zchar[65535] Header,
-    @tag(10)
-    repeat zchar trueish,
-    repeat string Packet `{ , }`,
-    char[] len,
-    lengthOf len ``,
-    packetx @lengthOf(float) `a\`,
-    @calculatedFrom(""" ++ [28040; 24687]%N ++ runes_of_ascii """)
-    matchKey @calculatedFrom(""" ++ [233]%N ++ runes_of_ascii "t" ++ [233]%N ++ runes_of_ascii """),
-    @rightPad(' ')
-    // @lengthOf(
-    // c
-    options1 @calculatedFrom(""" ++ [28040; 24687]%N ++ runes_of_ascii """),
-}
-
-MetaData Header {
-    Logon string_,
-}")).
-Eval vm_compute in ("<<<M4010>>>" ++ check (runes_of_ascii "// @lengthOf(
-  	packet 
-BodyLength { char 
-T,	}
-	root
-packet
-A 
-{
-	repeat
-len
-`say ""hi""`,
-	repeat Pad
-{
+As 
+, }	packet
+    BodyLength {
 repeat
-char[] // " ++ [128512]%N ++ runes_of_ascii " emoji
-      stringy ,
-	repeat
+
+    uint32
+body
+,zchar[
+65535 ]
+//	t
+    Header  ,
+As i8i8
+`tab	here` ,  @calculatedFrom( """ ++ [128512]%N ++ runes_of_ascii """
+)
+@rightPad(  // trailing space 
+  '0' )@tag( 
+65535)Pad	{ string
+u128,} 
+,
+
+@tag( 255  )
+@leftPad (
+    ) 
+@lengthOf( f32a
+
+)	repeat  o
+,repeat
+
+    i8i8	{ repeat
+	f32a  /// triple
+  float
+
+`line1
+line2` ,repeat
+char[ 0123456789 ]pack 
+`tab	here` ,	// `tick` ""quote"" 'q'
+    char[]
+	x	, 
+} 
+,
+
+@calculatedFrom(
+""""
+    )
+    @lengthOf( lengthOf
+) repeat	char[
+65535
+]	Foo
+    ,
+	pack lengthOf ,
+repeat
+
+    Pad ,} packet  // " ++ [128512]%N ++ runes_of_ascii " emoji
+  u8x
+	{  
+  //
+  @tag(	// `tick` ""quote"" 'q'
+255
+
+) repeat
+zchar[// trailing space 
+
+  4294967296]
+    pack
+    , 	 // " ++ [128512]%N ++ runes_of_ascii " emoji
+
+  char[
+
+0123456789
+	]	charz	// trailing space 
+	@calculatedFrom( 	 //x
+    ""a\""b""
+
+    )	// packet A { u8 x, }
+    ,
+//
+		@lengthOf(Header )  
+  // c
+	//x
+  f32a {u128 @calculatedFrom(  """" 
+    // " ++ [128512]%N ++ runes_of_ascii " emoji
+
+  ) `line1
+line2`
+	,
+T
+	@calculatedFrom(
+
+    ""a\""b""
+	),
+int32
+
+lengthOf
+	@lengthOf(
+	msg_type
+)
+,Foo@calculatedFrom(""a\""b"" ),} 
+,} ")).
+Eval vm_compute in ("<<<M3990>>>" ++ check (runes_of_ascii "packet u128 {
+    @calculatedFrom(""" ++ [28040; 24687]%N ++ runes_of_ascii """)
+    stringy {
+        match falsey as Z9_ {
+            // @lengthOf(
+            ""packet"" : float,
+        },
+        match uint8x as x_y_z {
+            3 : i64_,
+            //
+            // " ++ [128512]%N ++ runes_of_ascii " emoji
+            ""CRC32"" : float,
+            007 : falsey,
+            0123456789 : Packet,
+            [""it's"", ""\" ++ [233]%N ++ runes_of_ascii """] : calculatedFrom,
+        },
+        uint16 uint8x `it's`,
+        repeat i8 repeatCount,
+    },
+    u8 string_,
+    // trailing space 
+    @lengthOf(body)
+    @rightPad('\x00')
+    zchar[65535] trueish @calculatedFrom(""`tick`""),
+    @rightPad()
+    charz @lengthOf(A),
+    MetaDataX,
+    @tag(3)
+    char[3] x `doc`,
+    repeat i8i8 {
+        string Z9_,
+    },
+}// @lengthOf(
+
+root packet chars {
+    string_,
+    u16 trueish `
+        `,
+    float32 Pad @lengthOf(metadata) `" ++ [28040; 24687; 31867; 22411]%N ++ runes_of_ascii "`,
+    repeatCount,
+    @lengthOf(x)
+    char[] uint8x @lengthOf(T) `tab	here`,
+    A {
+        char rootA `
+                `,
+        int64 f32a,
+        Packet {
+            repeat i16 Foo `it's`,/// triple
+            zchar[65535] stringy @calculatedFrom(""1"") `
+                        `,// trailing space 
+        },
+        int,
+    },// trailing space 
+    charz metadata,
+    @calculatedFrom(""\" ++ [233]%N ++ runes_of_ascii """)
+    match o as matchKey {
+        ""abc"" : zchar,
+        // " ++ [27880; 37322]%N ++ runes_of_ascii "
+        ""CRC32"" : As,
+        // packet A { u8 x, }
+        ""packet"" : Packet,
+        ""x y"" : pack,
+        [
+            0, 10, 00, ""\n"", 65535,
+            ""1""
+        ] : As,
+    },//
+}
+
+options {
+}
+
+packet leftPad {
+    @calculatedFrom(""a\\"")
+    @lengthOf(len)
+    @tag(1)
+    char[255] u8x,
+    @calculatedFrom(""// no comment"")
+    int32 len @lengthOf(_x),
+    @calculatedFrom(""" ++ [28040; 24687]%N ++ runes_of_ascii """)
+    repeat Logon int `" ++ [28040; 24687; 31867; 22411]%N ++ runes_of_ascii "`,
+    match As as packetx {
+        ""a	b"" : uint8x,
+        // a // b
+    },
+    char[0] charz @lengthOf(i8i8),
+    chars metadata,
+    @tag(0123456789)
+    //
+    // trailing space 
+    BodyLength,
+}")).
+Eval vm_compute in ("<<<M4105>>>" ++ check (runes_of_ascii "
+options { _x
+
+=
+	float32
+
+; 
+}  packet 
+Packet {
+	char[
+    255	]
+	tag @lengthOf( a1 ) , match
+
+Packet
+    as
+lengthOf {
+
+[
+
+    ""x y"",
+
+1	]:
+
+metadata
+,
+    [	""x y""
+	, 	 // @lengthOf(
+    	0 	 //x
+		]:  // `tick` ""quote"" 'q'
+
+  metadata }, @lengthOf(
 
 rootA
 
-{uint64	Foo
-    @lengthOf( // `tick` ""quote"" 'q'
-	options1
-	) // @lengthOf(
-	`it's`
-,
-    //x
-	/// triple
-    zchar 
+    )	Header
+matchKey
+    , @lengthOf(
+
+    leftPad
+)char[]
+
+A `" ++ [233]%N ++ runes_of_ascii "` ,}
+    packet
+	Logon
 {
-zchar[42
 
-    ]
-Z9_ ,
-	repeat
-o
-    i8i8
-    ,
+    zchar[
 
-    uint8
-	x  `it's`
+1
+]// c
+    f32a
+    `{ , }`
+
     ,
-    rootA 
-Foo
-    `{ , }`  , }
+	i64_
+
+    @calculatedFrom(""" ++ [28040; 24687]%N ++ runes_of_ascii """
+
+)
+
     , 
-}
-    ,metadata
-@calculatedFrom( ""a	b"" 
-),
-    }
+@calculatedFrom( """ ++ [128512]%N ++ runes_of_ascii """
+)  @lengthOf( T 
+)
+uint16 T
+	@calculatedFrom( 
+""CRC32""//
+  )
+    // packet A { u8 x, }
+	, @tag(
+
+65535
+)// trailing space 
+	@lengthOf(	body)
+i8 o
+@lengthOf(// packet A { u8 x, }
+  MetaDataX
+
+    )// `tick` ""quote"" 'q'
+	`it's`
+
 ,
+match
+int as falsey  {  [	""// no comment"" , 255 
+      /// triple
+//	t
 
-    @tag(
-1	)
-	string 
-
-// c
-    u
-	`doc`
-    //	t
-	, u @calculatedFrom(
-
-""it's""  )
-	``
+	]	:  MetaDataX , } 
 ,
-char[ 7	]
-packetx
-	@lengthOf(	A
+	}
+root
+
+    packet 
+msg_type { @calculatedFrom( ""packet""
 
     )
-
-    `{ , }`
-    ,  string
-    _x `
-`
-,
-
-float32 _x , repeat
-    char[42
-
-] rootA
-
-`doc`
-	, }MetaData
-matchKey 
-{
-	zchar[
-	0123456789 ]
-    falsey``,	}packet Logon
-    {	@lengthOf( 
-zchar ) match
-leftPad
+    MetaDataX
+f32a `" ++ [233]%N ++ runes_of_ascii "`
+,@calculatedFrom( ""// no comment"")	//
+    repeat	asx
+	u128 ,
+match 
+msg_type
 as
-	falsey  {
-	3
-: Packet
 
-,
-007 :	// `tick` ""quote"" 'q'
-zchar 
-1
+u8x  { 
+255
 
-:  // @lengthOf(
-
-float,	""it's"" :body	""CRC32""
-    // " ++ [128512]%N ++ runes_of_ascii " emoji
 :
+	T ,	[7] : metadata
 
-    body	}	,
-
-@calculatedFrom(
-	""{,}"" ) zchar[  1
-]
-i8i8
-@lengthOf(uint8x	)
-
-,  zchar[
-
-    00
-    ]
-
-// `tick` ""quote"" 'q'
-
-	a1
-, uint64 u 
-, 
-string	Packet
-
-@calculatedFrom(
-""packet""
-)
-
-, 
-}
-")).
-Eval vm_compute in ("<<<M719>>>" ++ check (runes_of_ascii "packet x
-{ @tag(
-//x
-// a // b
-3
-    )@calculatedFrom( // `tick` ""quote"" 'q'
-""1"") @calculatedFrom( // packet A { u8 x, }
-""{,}"" )
-    o	uint8x , repeat
-    zchar[
-    4294967296
-    // " ++ [128512]%N ++ runes_of_ascii " emoji
-    ] Packet ,
-repeat trueish	{uint16
-a1  ,
-    char[]
-matchKey ,
-    float { uint64 A	@calculatedFrom(""`tick`""
-// c
-//x
-)
     ,
-} ,
-int32
-tag , }
-    , @leftPad
-    ( ) Foo{leftPad @calculatedFrom( ""{,}"" ) , //x
-} , @lengthOf( Z9_ )uint64 pack ,
-    }	options {roots
-=65535 ;  falsey =
-10 ; //x
-x_y_z =
-    ' ' ;
-    MetaDataX =// `tick` ""quote"" 'q'
-false
-    ; }options { crc
-    =true ;string_
-    = false;leftPad = ' ' ;i8i8 =
-    // c
-    '0' ; }root packet
-    string_ { u16
-    // trailing space 
-    rootA
-    @lengthOf( lengthOf ) `" ++ [233]%N ++ runes_of_ascii "`  ,@lengthOf( chars) @lengthOf( stringy)	@lengthOf( falsey	)
-string
-    Header @calculatedFrom( ""1"" ) ,
-@calculatedFrom( ""a\""b"")
-@calculatedFrom(
-    ""`tick`"" ) @tag(  65535 )
-    uint8
-//
-// " ++ [27880; 37322]%N ++ runes_of_ascii "
-f32a , @leftPad () zchar[42 // trailing space 
-] a1 @calculatedFrom(""""// " ++ [128512]%N ++ runes_of_ascii " emoji
+    },
+@lengthOf(
+body )
+
+leftPad
+
+@calculatedFrom(	""it's"")	,
+	@leftPad  ( ) metadata msg_type
+`crlf
+line`
+,	@tag( 255
+
+    )repeat  char[
+	00]
+rootA	// @lengthOf(
+    ,	match// " ++ [27880; 37322]%N ++ runes_of_ascii "
+
+f32a
+	as	charz	{ ""a	b""
+:  Header },@lengthOf(
+options1  // `tick` ""quote"" 'q'
 )
-,
-// a // b
-// a // b
-} options{ len  =  7 ; }
-")).
-Eval vm_compute in ("<<<M4197>>>" ++ check (runes_of_ascii "options
+char[]repeatCount	`u8 x,` // @lengthOf(
+    	,
+	@lengthOf( o 
+    // " ++ [128512]%N ++ runes_of_ascii " emoji
+	// c
+)float64
 
-{
+crc 
+      // " ++ [128512]%N ++ runes_of_ascii " emoji
+  	// packet A { u8 x, }
 
-    StringPrefixLenType
-	=
-    u16 
-; ArrayPrefixLenType =u8
-;
-FixedStringPadFromLeft
-
-=true
-;
-FixedStringPadChar  =' '; }
-packet Quote
-{ int64
-OrderId
-	,
-	char[]Ref , @leftPad	( '0'  )
-	char[
-
-5  ]
-
-price ,
+	@lengthOf(falsey 	 // `tick` ""quote"" 'q'
+      ) ,
 
 }packet
 
-    Heartbeat
-{ 
-zchar[3
-
-]
-	venue
-, string Flags  ,
-	}	packet	Trade
-	{ repeat 
-InTag787
-
-{ i32
-venue	,char[ 5	]  sym,
+_x	{
 repeat
-    InPx98  {
-	char[  11	]
-	Qty ,Heartbeat ,
-
-    char[]price  , u32
-x, float64 count ,repeat Quote
-    ,
-
-}
-,  zchar[ 7	]	Note , repeat	char[ 1 ]
-Tail,
-
-}
-    ,
-repeat char[2]
-    seqNo
-,InTail55
-    {repeat
-
-Quote
-
-,
-string
-	msgKind ,  InPx18	{char[]
-    count,
-	repeat
-Quote 
-,
-	uint16 Qty	,	} 
-,
-char[4 ]
-    seqNo ,repeat Heartbeat
-,
+	i64_
+// c
+  {
 repeat
-string
-	sym 
-,
+A {  x_y_z
 
-}
-	, repeat
-
-Quote
-,
-	Heartbeat
-, 
-@leftPad
-
-    (	' ')char[10
-	]
-OrderId
-    ,}
-	root packet
-Fill	{ Heartbeat ,
-uint32
-	count
-    ,	u8
-
-OrderId
-    , match
-    OrderId
-    as
-Body{ 96:Quote
-	,	195:Trade  ,
-    187 : Heartbeat ,
-},u32 venue@calculatedFrom(
-    ""CRC32""
-
-    ), } ")).
-Eval vm_compute in ("<<<M4323>>>" ++ check (runes_of_ascii "MetaData lengthOf {
-    i64 u128,
-    uint32 calculatedFrom,
-    char[00] string_,
-}
-
-root packet falsey {
-    char[] len `line1
-    line2`,
-    @tag(255)
-    uint8x @lengthOf(falsey),
-    float32 len,
-    repeat calculatedFrom i64_ `say ""hi""`,
-    @rightPad('0')
-    char[10] Logon,
-}
-
-packet rootA {
-    // " ++ [128512]%N ++ runes_of_ascii " emoji
-    // a // b
-    x {
-        falsey Logon,
-        trueish @calculatedFrom(""`tick`"") `// not a comment`,
-        uint8x body,
-    },
-    @calculatedFrom(""{,}"")
-    @calculatedFrom(""a\\"")
-    match f32a as i8i8 {
-        // " ++ [27880; 37322]%N ++ runes_of_ascii "
-        10 : matchKey,
-        1 : packetx,
-        0123456789 : Header,
-        ""it's"" : i64_,
-        // packet A { u8 x, }
-        0 : pack,
-    },
-    repeat uint8x x_y_z `" ++ [28040; 24687; 31867; 22411]%N ++ runes_of_ascii "`,
-    repeat char[255] string_,
-    @lengthOf(int)
-    calculatedFrom,
-    @tag(4294967296)
-    u16 packetx @calculatedFrom(""" ++ [28040; 24687]%N ++ runes_of_ascii """),
-    u128 body `doc`,
-}
-
-root packet tag {
-    //x
-    // `tick` ""quote"" 'q'
-    i32 A,
-}
-
-options {
-}")).
-Eval vm_compute in ("<<<M4496>>>" ++ check (runes_of_ascii "packet roots {
-    f32 zchar @calculatedFrom(""a	b"") `crlf
-    line`,
-    // @lengthOf(
-    /// triple
-    uint8x `tab	here`,
-    @rightPad()
-    @rightPad('\x00')
-    string int @lengthOf(body),
-    charz {
-        repeat zchar {
-            BodyLength @lengthOf(int),
-        },
-    },
-    @rightPad(' ')
-    repeat asx metadata `it's`,
-    float64 trueish,
-    repeat char[42] body `a\`,
-    @rightPad('0')
-    u32 body `tab	here`,
-}// `tick` ""quote"" 'q'
-
-packet chars {
-    @calculatedFrom(""packet"")
-    zchar[65535] _x,
-    float As `line1
-    line2`,
-    u64 asx @calculatedFrom(""1"") `u8 x,`,
-    crc @lengthOf(msg_type),
-    @tag(00)
-    @rightPad(' ')
-    @calculatedFrom(""" ++ [233]%N ++ runes_of_ascii "t" ++ [233]%N ++ runes_of_ascii """)
-    uint8 calculatedFrom,
-}
-
-options {
-    Packet = ' ';
-    Logon = 255
-    BodyLength = ""// no comment""
-}
-
-options {
-    float = ""a	b"";
-    f32a = """ ++ [28040; 24687]%N ++ runes_of_ascii """
-    //	t
-    len = uint64;
-    calculatedFrom = '0';
-}")).
-Eval vm_compute in ("<<<M4149>>>" ++ check (runes_of_ascii "
-packet
-A
-	{	@lengthOf(
-	lengthOf) int16	packetx  // trailing space 
-	@calculatedFrom(
-
-""1"" ) 
-,
-
-repeat	u64
-	Packet `
-`
-	,match trueish as  /// triple
-    roots
-    { 
-3
-    :
-A,
-
-""x y"" 
-	    // " ++ [27880; 37322]%N ++ runes_of_ascii "
-  //
-      : BodyLength 
-        //
-
-,	42
-	:Foo
-, 
-}
-    ,
-}
-packet
-
-As
-	{msg_type@lengthOf(
-    /// triple
-u
-),
-	}
-    root
-	packet  zchar
-
-    { i8i8
-	i8i8`
-`
-	, zchar
 {
-
-int8
-
-Foo
-
-`a\`
-
+char[ 1
+// c
+// @lengthOf(
+	] Logon  ,
+    }	,	/// triple
+	  }	,
+	}
+    ,
+} 	 //	t")).
+Eval vm_compute in ("<<<M731>>>" ++ check (runes_of_ascii "options
+    { _x =
+    float32
+    ;} packet Packet
+{char[ 255
+]	tag @lengthOf(
+    a1)
+    ,match Packet as lengthOf { [ ""x y"" ,	1
+    ] :metadata,
+[""x y""
+,// @lengthOf(
+0//x
+]  : // `tick` ""quote"" 'q'
+metadata  },@lengthOf(rootA
+) Header matchKey
+, @lengthOf(leftPad)  char[] A `" ++ [233]%N ++ runes_of_ascii "`
 ,
-}
-,
-	f32 
-pack
-	@lengthOf( crc
-    // packet A { u8 x, }
-		// c
+} packet Logon{zchar[1 ]// c
+f32a `{ , }` , i64_ @calculatedFrom( """ ++ [28040; 24687]%N ++ runes_of_ascii """)
+    , @calculatedFrom( """ ++ [128512]%N ++ runes_of_ascii """) @lengthOf( T ) uint16 T
+    @calculatedFrom( ""CRC32""//
 )
-
-    ,  @calculatedFrom(
-    ""{,}"") 	 // " ++ [27880; 37322]%N ++ runes_of_ascii "
-	match  crc
-	as 
-roots {65535  :
-int""packet""
-
-: float	,00
-    : 
-zchar
     // packet A { u8 x, }
-// `tick` ""quote"" 'q'
-  ,[ 
-""x y""
-	] :options1
-,
-""it's""
-    :x
-,
-} ,
-@lengthOf(	Packet
-) 
-match
-
-x
-
-//	t
-  as
-
-As
-{	//	t
-0
-
-    :
-lengthOf, 
-//	t
-  3	:
-
-pack
-,
-""it's"" :  x_y_z	, 
-""a\""b""	:metadata
-    } ,
-
-uint16
-	i8i8 ,} // a // b")).
-Eval vm_compute in ("<<<M211>>>" ++ check (runes_of_ascii "packet f32a
-    { @calculatedFrom(""1"" )
-_x { string
+    , @tag( 65535 )// trailing space 
+@lengthOf( body ) i8 o @lengthOf(// packet A { u8 x, }
+MetaDataX ) // `tick` ""quote"" 'q'
+`it's` ,match
+    int as falsey {  [ ""// no comment""	,
+255
 /// triple
 //	t
-metadata@calculatedFrom( ""`tick`""	) `// not a comment` ,  match // packet A { u8 x, }
-Foo as  len { 42//
-:Z9_ , //x
-}  , }
-,} packet /// triple
-options1{ @lengthOf(A )roots
-@lengthOf(// packet A { u8 x, }
-msg_type ) `line1
-line2` , int32/// triple
-a1 `it's` , @calculatedFrom( ""packet""
-    )repeat string T , @lengthOf( i64_ ) @calculatedFrom(
-""packet""
-) @tag( 007
-) int16 asx@calculatedFrom(
-""it's""
-    )//	t
-`doc` , repeat i32
-charz, metadata // packet A { u8 x, }
-`// not a comment` , }  packet
-Logon{ }
-options {
-}
-root
-packet tag  { @lengthOf(
-    Logon
-)
-charz { string stringy`// not a comment`	,
-uint64 int,char
-    i64_ `it's`
+] :
+MetaDataX , }
+    , }
+root packet msg_type  {	@calculatedFrom(""packet"") MetaDataX f32a `" ++ [233]%N ++ runes_of_ascii "`
+,@calculatedFrom( ""// no comment""
+    ) //
+repeat
+asx u128
+,match
+msg_type as u8x
+    { 255	: T , [ 7 ]
+:metadata , } ,
+@lengthOf( body ) leftPad @calculatedFrom( ""it's"")  ,@leftPad	()metadata msg_type  `crlf
+line` , @tag(
+255 )repeat
+    char[ 00 ] rootA // @lengthOf(
+, match // " ++ [27880; 37322]%N ++ runes_of_ascii "
+f32a as charz{  ""a	b"" : Header } , @lengthOf( options1// `tick` ""quote"" 'q'
+)char[]
+repeatCount  `u8 x,` // @lengthOf(
+,	@lengthOf( o
+// " ++ [128512]%N ++ runes_of_ascii " emoji
+// c
+) float64 crc
+// " ++ [128512]%N ++ runes_of_ascii " emoji
 // packet A { u8 x, }
-// a // b
-, } ,
-//	t
-//
-u8
-i64_ , zchar[ 1 ] float
-, } /// triple")).
-Eval vm_compute in ("<<<M206>>>" ++ check (runes_of_ascii "options{ }root // a // b
-packet
-    uint8x {  @tag( 3 ) @lengthOf(  falsey ) lengthOf @calculatedFrom(
-""`tick`"" ), A { i8 msg_type
-`crlf
-line` ,
-Foo @lengthOf( u8x
-) ,float ,
-    //
-    }
-, string // a // b
-lengthOf
-@calculatedFrom(	""abc"" )
-, @lengthOf(charz )
-    repeat string_	{// " ++ [128512]%N ++ runes_of_ascii " emoji
-zchar[
-    0
-    // a // b
-    ] T @calculatedFrom( ""a\\"" ) //	t
-, zchar[
-    42 ] repeatCount @lengthOf(
-Z9_ )`u8 x,`,}
-,  zchar[1
-    ]
-crc @calculatedFrom( // " ++ [27880; 37322]%N ++ runes_of_ascii "
-""// no comment"" )
-    `it's`
-    // `tick` ""quote"" 'q'
-    , @calculatedFrom(""{,}"")
-    tag
-int//
-, //x
-}
-MetaData f32a { // trailing space 
-i64 int // c
-,string int
-    , // c
-asx
-    //x
-    Pad
-    //x
-    `crlf
-line` , string lengthOf,
-    uint32
-pack ,// " ++ [27880; 37322]%N ++ runes_of_ascii "
-msg_type
-    u `it's` ,
-}")).
-Eval vm_compute in ("<<<M4265>>>" ++ check (runes_of_ascii "root packet Packet {
-    char[] msg_type @calculatedFrom(""a\\""),
-    repeat u16 a1 `say ""hi""`,
-    f32a stringy `u8 x,`,
-    uint16 int,
-    @calculatedFrom(""// no comment"")
-    repeat u8 T,
-    zchar[65535] T,// `tick` ""quote"" 'q'
-    repeat chars {
-        char[] tag `" ++ [233]%N ++ runes_of_ascii "`,
-        int64 A @calculatedFrom(""\n"") `// not a comment`,
-        match trueish as i8i8 {
-            [""a\""b""] : MetaDataX,
-        },
-        len {
-            zchar[65535] o @lengthOf(body) `a\`,
-            string options1 `two words`,
-            tag {
-                T `{ , }`,
-                charz,
-                i8 uint8x,
-            },
-            char[] packetx @lengthOf(roots),
-        },
-    },//
-    string x,
-}// trailing space")).
-Eval vm_compute in ("<<<M88>>>" ++ check (runes_of_ascii "// trailing space 
-packet tag {
-    @rightPad
-    // @lengthOf(
-    ( '0' )
-    u128 ,
-@lengthOf(MetaDataX
-    )
-    // c
-    leftPad, // packet A { u8 x, }
-@tag( 1
-    )calculatedFrom
-    @lengthOf( Logon )  , }
-packet string_	{ } packet u128 {char[	0 // packet A { u8 x, }
-]
-chars `say ""hi""`
-,
-int , @leftPad ( '0'
-// @lengthOf(
-//x
-)T { repeat zchar[ 255]
-int
-,zchar  stringy	, }
-    ,repeat zchar{ match leftPad as packetx
-{ [
-""`tick`""
-    ] :
-    lengthOf //x
-,  [  7,""" ++ [128512]%N ++ runes_of_ascii """
-    ,
-00 , ""x y"" , ""packet"" ] :
-    stringy // @lengthOf(
-, [
-42 ,""\n""
-, ""it's"" ,// " ++ [128512]%N ++ runes_of_ascii " emoji
-65535, 1	]
-: msg_type ""packet"" :	a1 ,} , u16 int
-,
-repeat x_y_z float,
-repeat//x
-u64 A `a\` ,
-} , }
-")).
-Eval vm_compute in ("<<<M750>>>" ++ check (runes_of_ascii "packet a1
-    {  repeat//
-tag
-f32a /// triple
-`crlf
-line`,
-    /// triple
-    char[  4294967296] u, char[ 3]o , @tag( 007) // trailing space 
-int ,} options // " ++ [128512]%N ++ runes_of_ascii " emoji
-{}packet pack{ charz @lengthOf(
-BodyLength ) `line1
-line2`
-,@tag(65535) match
-pack as asx
-{42 : msg_type ,	007// packet A { u8 x, }
-:
-T ,
-    4294967296: float , }	, // a // b
-@tag(4294967296)
-    u8
-stringy
-    @lengthOf(
-    msg_type ) , @calculatedFrom( ""abc""
+@lengthOf( falsey // `tick` ""quote"" 'q'
 )
-repeat len ,@rightPad ( '0'
-    )string //
-int
-@lengthOf( i8i8
-    ) , } MetaData crc
-    { char[] u128 ,char[] T
-`a\`
-    ,
+,
+} packet	_x {	repeat i64_
+    // c
+    { repeat A{ x_y_z { char[ 1
+// c
+// @lengthOf(
+]Logon
+, } , /// triple
+} , } , } //	t")).
+Eval vm_compute in ("<<<M374>>>" ++ check (runes_of_ascii "packet BodyLength// packet A { u8 x, }
+{ leftPad lengthOf ,	float rootA `it's`	, @leftPad (
+    '0' ) repeat
+    BodyLength ,@rightPad
+(
+    ) i16// a // b
+falsey @lengthOf(// a // b
+i64_ ) , // `tick` ""quote"" 'q'
+repeat
+char[ 0123456789 ]uint8x , repeat
     // " ++ [27880; 37322]%N ++ runes_of_ascii "
-    packetx	chars ,  float64 tag`{ , }` ,
-    MetaDataX charz ,}
-")).
-Eval vm_compute in ("<<<M847>>>" ++ check (runes_of_ascii "options// trailing space 
-{ o =	007
-    // packet A { u8 x, }
+    f64 i64_,	a1 tag`" ++ [233]%N ++ runes_of_ascii "` ,char[ 10 ]packetx
+`say ""hi""`
+,
+    repeat  tag metadata
+`tab	here` , }
+    /// triple
+    options {
+crc = """"
     ;
 }
-    root packet options1 {//
-@rightPad () zchar[ 65535 ] x, @lengthOf( lengthOf	)x metadata // @lengthOf(
-, // `tick` ""quote"" 'q'
-@tag(
-007  )int64
-uint8x
-// @lengthOf(
-//x
-@lengthOf(i64_ )//x
-`a\`, @calculatedFrom(""1"" )	@tag(
-007 ) repeat	u32 metadata
-, // a // b
-match
-    As
-as rootA {
-""a\""b"" :As
+    packet int
+{ repeat zchar[	255
+    ]	i64_ `two words`//x
 ,
-} ,@calculatedFrom(
-""CRC32"" ) uint16 As
-@calculatedFrom(
-    ""a	b"")
-`" ++ [28040; 24687; 31867; 22411]%N ++ runes_of_ascii "` ,@lengthOf( A) u int `" ++ [233]%N ++ runes_of_ascii "`, i64_ MetaDataX , leftPad
-    , @lengthOf(
-_x) body `two words` ,
-    } MetaData repeatCount
-{ charz	packetx ,  float32 f32a ,
-}
-")).
-Eval vm_compute in ("<<<M863>>>" ++ check (runes_of_ascii "
-packet
-    zchar // " ++ [128512]%N ++ runes_of_ascii " emoji
-{ match Foo /// triple
-as pack {""abc"": falsey ,10 : _x , }
-,@tag(	255 )string
-// @lengthOf(
-// a // b
-len `line1
-line2` ,
-}  MetaData o {metadata
-A
-    , string
-stringy , string	Foo	`say ""hi""`	, repeatCount // " ++ [27880; 37322]%N ++ runes_of_ascii "
-matchKey ,	x //x
-u8x , // " ++ [27880; 37322]%N ++ runes_of_ascii "
-} packet
-    _x { @leftPad// @lengthOf(
-(	'\x00') @calculatedFrom(
-    ""packet""
-) repeat
-// trailing space 
-// c
-Foo
-Z9_ , @lengthOf( As ) uint64
-_x @lengthOf( pack )
+    string tag@lengthOf( // a // b
+Header )
+,char chars ,
+@lengthOf(
+    crc ) match asx as Foo{ 7  : BodyLength , ""packet"" : Z9_
+,007 :
+    matchKey ,} ,
+uint16 metadata// a // b
+,
+i64_ {	repeat
+u8
+msg_type, stringy {char[ 0123456789 ] // c
+o @calculatedFrom(
+""\n"" ) `" ++ [233]%N ++ runes_of_ascii "` ,}
 /// triple
-// a // b
-,@rightPad // " ++ [128512]%N ++ runes_of_ascii " emoji
-(
-    '0'
-)match A as uint8x
-{	[0
-,  ""\" ++ [233]%N ++ runes_of_ascii """]:Packet ,007	: MetaDataX // " ++ [128512]%N ++ runes_of_ascii " emoji
-, ""1""	: trueish, }
-,}
+// packet A { u8 x, }
+, zchar[
+00]
+    stringy	`line1
+line2`
+, } ,
+@leftPad//
+('0') match uint8x as u128 {
+[ 1 // a // b
+, ""abc"" ]
+    : _x  ""a	b"" :Packet
+    // c
+    3 : _x //	t
+, ""`tick`"" :
+packetx ,
+""\n""
+: Header ,  } ,
+x
+    // c
+    @calculatedFrom(
+    /// triple
+    ""\n"" ) ,zchar[ 65535 ]
+    Packet//x
+,
+} MetaData Logon{
+    } packet packetx {
+@calculatedFrom( ""a\\"" )
+match roots as Foo { [""\n"", 4294967296 ] : asx ,00
+:  o , ""{,}"" :Header ,255 : packetx , [255,4294967296	] :MetaDataX
+    ,  } , }")).
+Eval vm_compute in ("<<<M1387>>>" ++ check (runes_of_ascii "options{ falsey =
+float64 ;
+u8x
+=' ' ; charz = '0' ; // a // b
+} options/// triple
+{ i8i8 = true ;	uint8x = false ; roots
+//	t
+// " ++ [27880; 37322]%N ++ runes_of_ascii "
+=
+// @lengthOf(
+// c
+42 ; MetaDataX= ""a\\""
+} packet tag { lengthOf//
+, @lengthOf(
+    // a // b
+    u8x)
+    match// " ++ [27880; 37322]%N ++ runes_of_ascii "
+metadata as packetx { ""// no comment""
+:
+    // `tick` ""quote"" 'q'
+    tag // " ++ [128512]%N ++ runes_of_ascii " emoji
+,65535
+: MetaDataX
+    // " ++ [128512]%N ++ runes_of_ascii " emoji
+    ,	} ,@rightPad(' '
+)  char[ 007 // c
+] // " ++ [128512]%N ++ runes_of_ascii " emoji
+len, @calculatedFrom(
+    ""a	b""
+) repeat//x
+uint8x u8x `a\`
+, repeat
+uint8x	{ match  MetaDataX as zchar  { 65535 : int
+, 1
+    :
+    matchKey  , [ 0123456789]
+:pack, 7: Z9_ , 0123456789
+:	rootA/// triple
+[ 00
+    ,""\n"" ] :leftPad , }  , u128  { // a // b
+uint64 i8i8 // packet A { u8 x, }
+, i32 tag	, uint8 body	,}  , zchar[255 ] rootA	, } // trailing space 
+, // trailing space 
+string roots , @calculatedFrom(
+""CRC32"" ) @tag( 7 ) string_	@calculatedFrom(  ""abc"" )
+, zchar[ 10 ] int `say ""hi""` , @lengthOf(  metadata )	char[ 0 ] roots @calculatedFrom( """" ) // `tick` ""quote"" 'q'
+, @calculatedFrom(""x y""//x
+) rootA `" ++ [28040; 24687; 31867; 22411]%N ++ runes_of_ascii "` , }
+root packet // " ++ [128512]%N ++ runes_of_ascii " emoji
+i64_ {@tag( 00 )
+repeat x i64_ , } options { Header
+    =00 float =	false
+    ;}
 ")).
-Eval vm_compute in ("<<<M3831>>>" ++ check (runes_of_ascii "packet i8i8 {
-    char[] string_ `tab	here`,
-    @lengthOf(T)
-    @lengthOf(uint8x)
-    @rightPad('\x00')
-    zchar[4294967296] f32a @calculatedFrom(""CRC32"") `it's`,
-}// @lengthOf(
+Eval vm_compute in ("<<<M414>>>" ++ check (runes_of_ascii "packet Packet
+{ Logon @lengthOf(chars ) , @lengthOf(  stringy
+    // c
+    ) int { // a // b
+char[ 1 ]
+    rootA,
+    repeat repeatCount `it's`
+    , i8 calculatedFrom
+    ,	} ,
+    _x
+u128,
+    //	t
+    i16 uint8x @lengthOf( a1 )	, a1@calculatedFrom( """ ++ [233]%N ++ runes_of_ascii "t" ++ [233]%N ++ runes_of_ascii """ ) , @lengthOf(
+x
+// `tick` ""quote"" 'q'
+// packet A { u8 x, }
+)	repeat
+    x_y_z{
+int32 crc @calculatedFrom( ""packet"" ), repeat string Z9_
+    , float64 len ,} , repeat
+options1`" ++ [28040; 24687; 31867; 22411]%N ++ runes_of_ascii "`
+,
+// a // b
+// " ++ [128512]%N ++ runes_of_ascii " emoji
+@leftPad  (' ' ) string // @lengthOf(
+msg_type @calculatedFrom(
+    ""a	b"" ) , // trailing space 
+repeat uint8
+trueish`line1
+line2` , } options // `tick` ""quote"" 'q'
+{
+    body	= ""\" ++ [233]%N ++ runes_of_ascii """ } packet pack// @lengthOf(
+{ /// triple
+@lengthOf(	matchKey )char[3 ] a1
+    ,
+@leftPad
+( ) @calculatedFrom( ""it's""
+) repeat f32a { zchar[ 00 ]
+lengthOf ,
+    stringy u8x ,
+As// trailing space 
+{  A//x
+@calculatedFrom(	""abc"" ), match
+u8x as	crc	{
+65535:
+trueish ,
+""a	b"" :
+    matchKey
+    // " ++ [128512]%N ++ runes_of_ascii " emoji
+    } , }
+, trueish // a // b
+@calculatedFrom( /// triple
+""\n"" // trailing space 
+) `say ""hi""`
+    , } , }
+packet stringy {char[ 4294967296 ]
+u8x
+, }
+")).
+Eval vm_compute in ("<<<M3701>>>" ++ check (runes_of_ascii "// @lengthOf(
+packet BodyLength {
+    char T,
+}
 
 root packet A {
-    @rightPad()
-    @calculatedFrom(""" ++ [233]%N ++ runes_of_ascii "t" ++ [233]%N ++ runes_of_ascii """)
-    string T `crlf
-    line`,
-    u64 falsey `two words`,
-    zchar[65535] lengthOf `doc`,
-    match crc as int {
-        [""packet"", ""it's""] : body,
-        007 : leftPad,
-        ""{,}"" : Z9_,
-        [
-            0123456789, 00, ""a\\"", """ ++ [128512]%N ++ runes_of_ascii """, ""\" ++ [233]%N ++ runes_of_ascii """,
-            ""`tick`"", ""it's"", """ ++ [233]%N ++ runes_of_ascii "t" ++ [233]%N ++ runes_of_ascii """
-        ] : x_y_z,
+    repeat len `say ""hi""`,
+    repeat Pad {
+        repeat char[] stringy,
+        repeat rootA {
+            uint64 Foo @lengthOf(options1) `it's`,
+            //x
+            /// triple
+            zchar {
+                zchar[42] Z9_,
+                repeat o i8i8,
+                uint8 x `it's`,
+                rootA Foo `{ , }`,
+            },
+        },
+        metadata @calculatedFrom(""a	b""),
     },
+    @tag(1)
+    string u `doc`,
+    u @calculatedFrom(""it's"") ``,
+    char[7] packetx @lengthOf(A) `{ , }`,
+    string _x `
+    `,
+    float32 _x,
+    repeat char[42] rootA `doc`,
+}
+
+MetaData matchKey {
+    zchar[0123456789] falsey ``,
+}
+
+packet Logon {
+    @lengthOf(zchar)
+    match leftPad as falsey {
+        3 : Packet,
+        007 : zchar,
+        1 : float,
+        ""it's"" : body,
+        ""CRC32"" : body,
+    },
+    @calculatedFrom(""{,}"")
+    zchar[1] i8i8 @lengthOf(uint8x),
+    zchar[00] a1,
+    uint64 u,
+    string Packet @calculatedFrom(""packet""),
 }")).
-Eval vm_compute in ("<<<M1164>>>" ++ check (runes_of_ascii "/// triple
-packet falsey { i32	BodyLength @calculatedFrom( ""// no comment""
-    ) ,
-i8i8 // " ++ [27880; 37322]%N ++ runes_of_ascii "
-body // trailing space 
-,@calculatedFrom(""packet"" ) repeat  char
-    stringy,@rightPad( // `tick` ""quote"" 'q'
-'0' )matchKey
-@lengthOf( a1 ) , match
-options1 as trueish { ""abc"":Logon
+Eval vm_compute in ("<<<M841>>>" ++ check (runes_of_ascii "options
+{ } packet Foo { string Header `doc` ,
+    char[7] leftPad
+    , match i64_ as o { 10 //x
+: // `tick` ""quote"" 'q'
+x	,[""x y"" ] : repeatCount // c
 ,
-} ,
-T
-leftPad
-    , As {  metadata f32a ,
-//x
-// " ++ [27880; 37322]%N ++ runes_of_ascii "
-As @lengthOf( matchKey) , } , repeat Packet
-falsey `say ""hi""`
-    ,
-char[
-255
-] charz
-@lengthOf(
-// " ++ [128512]%N ++ runes_of_ascii " emoji
-// packet A { u8 x, }
-metadata
-    // " ++ [128512]%N ++ runes_of_ascii " emoji
-    ) // " ++ [128512]%N ++ runes_of_ascii " emoji
-`" ++ [28040; 24687; 31867; 22411]%N ++ runes_of_ascii "` , } options { }
-")).
-Eval vm_compute in ("<<<M503>>>" ++ check (runes_of_ascii "options {tag =	false
-    ;  } root packet MetaDataX {repeat a1 { // packet A { u8 x, }
-match options1 as _x { [ ""1""
-    ] :
-    //	t
-    leftPad
-, """" :Z9_ ,  ""a	b"" :leftPad ,
-/// triple
-// " ++ [128512]%N ++ runes_of_ascii " emoji
-},
-} , o , // @lengthOf(
-@lengthOf( x ) calculatedFrom { repeat charz ,char[ 0123456789 ]
-Pad , } , } // a // b
-MetaData roots
-{ }
-packet
+0123456789 //	t
+:
+// @lengthOf(
 // `tick` ""quote"" 'q'
-//	t
-T {
-match metadata // " ++ [128512]%N ++ runes_of_ascii " emoji
-as BodyLength {
-    0 : Packet ,
+roots ,
+    [0 ,
+7
+    ,00 ,
 """ ++ [233]%N ++ runes_of_ascii "t" ++ [233]%N ++ runes_of_ascii """
-: f32a, //x
-""// no comment""
-: float ,
-// packet A { u8 x, }
-//	t
-}, }
-")).
-Eval vm_compute in ("<<<M4229>>>" ++ check (runes_of_ascii "
-
-  MetaData
-len 
-{ }
-
-    packet 
-BodyLength{	char[
-	42 
-] 
-A@calculatedFrom( ""// no comment""
-)
-    `crlf
-line`  // a // b
-	  ,	match//
-	Header	as calculatedFrom  {  
-  /// triple
-// packet A { u8 x, }
-""`tick`"" : 
-//x
-
-  //	t
-
-o ,
-
+,00 ,/// triple
+10
+, ""packet"" ] :  stringy ,
+    /// triple
+    [ 0123456789,
+""{,}"" , """" , ""a	b"" ,""a\\"" , ""\n"" , 4294967296,1	] :  BodyLength, /// triple
+4294967296: float , },
+packetx`
+`, zchar[  7 ] Foo ,  Logon ,
+match o as calculatedFrom {3: uint8x
+    //
+    }
+    , rootA repeatCount	, }
+    root
+packet f32a{@lengthOf(
+float  ) crc
+    `u8 x,`//
+, @calculatedFrom(
+""{,}"") repeat zchar[
+3
+    ]Header `` ,match len as pack { [ ""{,}"" , ""a\\""  ] :uint8x , [""packet"" , 42 ,""\n"", 4294967296// c
+,  ""CRC32"" ,
+    // `tick` ""quote"" 'q'
+    007	]
+    :Foo , """ ++ [233]%N ++ runes_of_ascii "t" ++ [233]%N ++ runes_of_ascii """
     // packet A { u8 x, }
-	// c
-  }
+    : BodyLength , 0123456789: crc , }
+    , x As
+`u8 x,`
+,float64 Pad @lengthOf( repeatCount) ,	char[
+00] Logon @lengthOf( tag )	,
+    }")).
+Eval vm_compute in ("<<<M1304>>>" ++ check (runes_of_ascii "
+packet matchKey //	t
+{ @leftPad
+(
+    ) // a // b
+calculatedFrom	,@lengthOf( msg_type
+    // `tick` ""quote"" 'q'
+    )	repeat x_y_z `doc`  , uint8 o //
+@lengthOf( leftPad )`" ++ [28040; 24687; 31867; 22411]%N ++ runes_of_ascii "` , repeat x_y_z
+{match
+    u8x	as i8i8 {
+""a\""b"" : lengthOf ,
+    [
+3
     ,
-repeat
-	packetx
-
-    ,  }
-    packet
-
-u {
-    }packet	x_y_z { @lengthOf(
-
-    repeatCount	)  // trailing space 
-  char[] 
-charz @calculatedFrom( ""it's""	) `doc`,
-} 
-packet
-	calculatedFrom  { }
-")).
-Eval vm_compute in ("<<<M1373>>>" ++ check (runes_of_ascii "// @lengthOf(
-MetaData msg_type
-// `tick` ""quote"" 'q'
-// @lengthOf(
-{ string
-Logon ,
-i8 repeatCount
-    `// not a comment`, }
-packet i64_ {
-    // c
-    @leftPad(
-'0' )repeat repeatCount
-`u8 x,` , Header {// " ++ [27880; 37322]%N ++ runes_of_ascii "
-A{ uint32 T `crlf
-line` ,
-} , }, }
-MetaData Header// " ++ [27880; 37322]%N ++ runes_of_ascii "
-{
-    Header u `doc` ,
-    // " ++ [27880; 37322]%N ++ runes_of_ascii "
-    char[ 4294967296 ] u128
-, float32 falsey , char[ 10
-    ]
-roots`crlf
-line`
-    ,
-int64 calculatedFrom `say ""hi""` ,} root packet i64_ { /// triple
-}
-")).
-Eval vm_compute in ("<<<M4450>>>" ++ check (runes_of_ascii "MetaData T
-{ Foo
-    lengthOf  , string
-        //x
-      packetx  `// not a comment` , zchar[
-
-    //	t
-0
-]metadata
-
-//x
-  // `tick` ""quote"" 'q'
-  	`crlf
-line` 
-,
-    x
-    string_
-
-`line1
-line2` ,}
-	packet  repeatCount
-
-{
-
-    char[	// `tick` ""quote"" 'q'
-		255 ]
-
-A
-
-    @calculatedFrom(""a\\"") ,
-float32
-BodyLength 
-@lengthOf(
-_x
-)
-
-    // c
-    //
-  `doc`
-,
-
-char[]
-trueish 
-    // " ++ [128512]%N ++ runes_of_ascii " emoji
-@calculatedFrom(
-
-""packet"") 
-,
-	}
-")).
-Eval vm_compute in ("<<<M180>>>" ++ check (runes_of_ascii "  packet repeatCount {
-@rightPad (' ' )
-char[42]	Header @calculatedFrom( ""a\\"" )
-    ,
-// packet A { u8 x, }
-// packet A { u8 x, }
-@tag( 10 ) i64 options1@calculatedFrom( ""x y"" )
-,  Packet{ i64 lengthOf@calculatedFrom( ""abc""
-)
-    // " ++ [128512]%N ++ runes_of_ascii " emoji
-    , repeat zchar[
-00 ] i64_`u8 x,`
-    , } ,
-    string tag , string
-    o `" ++ [233]%N ++ runes_of_ascii "`
-/// triple
-// " ++ [128512]%N ++ runes_of_ascii " emoji
-, repeat char[  42] a1 `doc`,
-string leftPad @calculatedFrom(""a\\"" ), } 	 ")).
-Eval vm_compute in ("<<<M373>>>" ++ check (runes_of_ascii "options { x =3
-    matchKey= ""a\""b"" // @lengthOf(
-leftPad	= ""packet"" ; T = zchar[ 65535 ]; } MetaData
-    MetaDataX {} MetaData // " ++ [128512]%N ++ runes_of_ascii " emoji
-repeatCount {u8x Pad	, }
-    packet
-T{ @tag( 42  ) repeat MetaDataX `{ , }`
-    // a // b
-    , // @lengthOf(
-float32 x@lengthOf( u8x  )
-`
-`
-    ,int16 matchKey @calculatedFrom( ""\n""	) `two words` , }packet packetx
-{_x
-@calculatedFrom( ""a\""b""
-)`a\`	,
-} // a // b")).
-Eval vm_compute in ("<<<M122>>>" ++ check (runes_of_ascii "
-packet  u
-    //	t
-    {uint32 metadata	,	@lengthOf( metadata // " ++ [27880; 37322]%N ++ runes_of_ascii "
-)
-// `tick` ""quote"" 'q'
+""a\""b""
+, 65535
+,00 ,
+    10 , ""1"" ]//x
+:
+// trailing space 
 // c
-repeat Logon
-    ,x_y_z// a // b
-, @lengthOf(
-    tag )
-// " ++ [128512]%N ++ runes_of_ascii " emoji
-// c
-float msg_type	,}MetaData chars { u8x
+roots,
+3:  crc
+    ,
+    [ """ ++ [28040; 24687]%N ++ runes_of_ascii """,3 // a // b
+] //	t
+:	msg_type , [ """ ++ [128512]%N ++ runes_of_ascii """	] : Packet , 4294967296 :
     matchKey
-// " ++ [27880; 37322]%N ++ runes_of_ascii "
-//x
-,
-    uint8
-    x_y_z `u8 x,`, zchar x_y_z `doc` ,	char i64_ `a\` ,f32 tag//	t
-, } MetaData _x {
-// trailing space 
-// `tick` ""quote"" 'q'
-} options { }
-")).
-Eval vm_compute in ("<<<M74>>>" ++ check (runes_of_ascii "root packet x	{ @calculatedFrom(""a\\"" ) zchar[42 ]float @calculatedFrom(""a\""b""  ) `
-` ,
-    } MetaData o
-    {
-int8
-BodyLength,string len ,
-    string len , float falsey ,T float
-    , }	MetaData pack { /// triple
-charz o
-`// not a comment`	,	float64 f32a `tab	here`  , int32  u8x  `// not a comment` ,char[10 ]
-a1
-, float32 options1  ,
-} // `tick` ""quote"" 'q'")).
-Eval vm_compute in ("<<<M4364>>>" ++ check (runes_of_ascii "
-// top
-  packet
-    // c0
-
-	metadata  
-  // c1
-      { 
-      // c2
-	  Logon 
-	    // c3
-	{ 
-    // c4
-A 
-	// c5
-  `" ++ [28040; 24687; 31867; 22411]%N ++ runes_of_ascii "` 
-	    // c6
-	  ,
-// c7
-
-	tag
-
-    // c8
-	o 
-        // c9
-  ,
-    // c10
-  	} 
-	    // c11
-  	, 
-	    // c12
-      zchar
-
-// c13
-    len 
-  // c14
-    `// not a comment` 
-// c15
-	, 
-	// c16
-    	} 
-        // c17
-")).
-Eval vm_compute in ("<<<M3816>>>" ++ check (runes_of_ascii "
-options 
-{	zchar= ' '
-	;  MetaDataX
-
-    =  zchar[ 255
-]	// " ++ [128512]%N ++ runes_of_ascii " emoji
-; 
-}
-	options{
-options1 
-= 
-""1""
-//x
-// " ++ [128512]%N ++ runes_of_ascii " emoji
-	;
-	} MetaData u128
-
-    /// triple
-	  // `tick` ""quote"" 'q'
-		{
-	char[]
-	leftPad,
-
-}options//	t
-
-{  a1
-= 255 ;
-
-    } packet As
-
-    { 
-repeat
-
-char[	007
-    ]A
-	,
-
-    f32a
-@lengthOf(  calculatedFrom ) ,}
-")).
-Eval vm_compute in ("<<<M4546>>>" ++ check (runes_of_ascii "packet string_ {
-    @lengthOf(int)
-    BodyLength u8x,
-    i64_ `tab	here`,
-    char[3] string_,
-    repeat leftPad `" ++ [28040; 24687; 31867; 22411]%N ++ runes_of_ascii "`,
-    repeat int32 BodyLength `u8 x,`,// `tick` ""quote"" 'q'
-    @tag(4294967296)
-    BodyLength `crlf
-    line`,
-    msg_type Packet `" ++ [233]%N ++ runes_of_ascii "`,
-    float32 string_ @calculatedFrom(""""),
-    asx int `it's`,
-}")).
-Eval vm_compute in ("<<<M1963>>>" ++ check (runes_of_ascii "MetaData
-    u { }  options {
-// c
-// @lengthOf(
-float = int8 ;rootA =false ; As =	int16 // `tick` ""quote"" 'q'
-repeatCount
-    // trailing space 
-    =
-    int16
-; @leftPad =
-    //	t
-    '\x00' ; } options	{
-    repeatCount
-= 0
-u128
-    //
-    = false ; i64_
-// trailing space 
-// `tick` ""quote"" 'q'
-= '0' ; //	t
-}
-")).
-Eval vm_compute in ("<<<M1931>>>" ++ check (runes_of_ascii "MetaData
-    u { }  options {
-// c
-// @lengthOf(
-float = int8 ;rootA =false ; As = =	int16 // `tick` ""quote"" 'q'
-repeatCount
-    // trailing space 
-    =
-    int16
-; u8x =
-    //	t
-    '\x00' ; } options	{
-    repeatCount
-= 0
-u128
-    //
-    = false ; i64_
-// trailing space 
-// `tick` ""quote"" 'q'
-= '0' ; //	t
-}
-")).
-Eval vm_compute in ("<<<M2062>>>" ++ check (runes_of_ascii "MetaData
-    u { }  options {
-// c
-// @lengthOf(
-float = int8 ;rootA =false ; As =	int16 // `tick` ""quote"" 'q|'
-repeatCount
-    // trailing space 
-    =
-    int16
-; u8x =
-    //	t
-    '\x00' ; } options	{
-    repeatCount
-= 0
-u128
-    //
-    = false ; i64_
-// trailing space 
-// `tick` ""quote"" 'q'
-= '0' ; //	t
-}
-")).
-Eval vm_compute in ("<<<M1968>>>" ++ check (runes_of_ascii "MetaData
-    u { }  options {
-// c
-// @lengthOf(
-float = int8 ;rootA =false ; As =	int16 // `tick` ""quote"" 'q'
-repeatCount
-    // trailing space 
-    =
-    int16
-; u8x {
-    //	t
-    '\x00' ; } options	{
-    repeatCount
-= 0
-u128
-    //
-    = false ; i64_
-// trailing space 
-// `tick` ""quote"" 'q'
-= '0' ; //	t
-}
-")).
-Eval vm_compute in ("<<<M1945>>>" ++ check (runes_of_ascii "MetaData
-    u { }  options {
-// c
-// @lengthOf(
-float = int8 ;rootA =false ; As =	int16 // `tick` ""quote"" 'q'
-repeatCount
-    // trailing space 
-    
-    int16
-; u8x =
-    //	t
-    '\x00' ; } options	{
-    repeatCount
-= 0
-u128
-    //
-    = false ; i64_
-// trailing space 
-// `tick` ""quote"" 'q'
-= '0' ; //	t
-}
-")).
-Eval vm_compute in ("<<<M1905>>>" ++ check (runes_of_ascii "MetaData
-    u { }  options {
-// c
-// @lengthOf(
-float = int8 ; =false ; As =	int16 // `tick` ""quote"" 'q'
-repeatCount
-    // trailing space 
-    =
-    int16
-; u8x =
-    //	t
-    '\x00' ; } options	{
-    repeatCount
-= 0
-u128
-    //
-    = false ; i64_
-// trailing space 
-// `tick` ""quote"" 'q'
-= '0' ; //	t
-}
-")).
-Eval vm_compute in ("<<<M3521>>>" ++ check (runes_of_ascii "// top
-packet // c0
-float // c1
-{ // c2
-repeat // c3
-i8i8 // c4
-MetaDataX // c5
-`it's` // c6
-, // c7
-rootA // c8
-, // c9
-repeat // c10
-int8 // c11
-int // c12
-, // c13
-match // c14
-repeatCount // c15
-as // c16
-x_y_z // c17
-{ // c18
-""{,}"" // c19
-: // c20
-Logon // c21
-, // c22
-} // c23
-, // c24
-} // c25
-")).
-Eval vm_compute in ("<<<M447>>>" ++ check (runes_of_ascii "packet roots { @tag(  255) zchar[ 00] lengthOf	`" ++ [233]%N ++ runes_of_ascii "`
-    , zchar[ 7
-// @lengthOf(
-//
-] u `say ""hi""`// " ++ [27880; 37322]%N ++ runes_of_ascii "
-, }  options { } options { calculatedFrom
-= 4294967296 // " ++ [128512]%N ++ runes_of_ascii " emoji
-i64_ = '\x00' ; i64_
-= ""abc"" ; }  MetaData roots{
-    char[]
-    BodyLength`two words`
-, i16 Header `// not a comment`, }")).
-Eval vm_compute in ("<<<M871>>>" ++ check (runes_of_ascii "packet len
-{@calculatedFrom(
-    ""x y"" ) @tag(3
-// packet A { u8 x, }
-// `tick` ""quote"" 'q'
-)
-//
-// c
-@tag( 1)
-    /// triple
-    match
-o as
-    Header { 007 : BodyLength
-    ,	""x y"" : zchar
-, [
-""abc""] : string_
-, } ,// c
-int32
-// packet A { u8 x, }
-// a // b
-leftPad , } // c")).
-Eval vm_compute in ("<<<M167>>>" ++ check (runes_of_ascii "options { roots
-=//x
-int64 }
-// @lengthOf(
-// @lengthOf(
-packet
-    int {
-char  zchar, repeat len {
-    f32a `" ++ [28040; 24687; 31867; 22411]%N ++ runes_of_ascii "`, } ,zchar[
-007 ]As
-    `it's`
-,  zchar[007
-    // a // b
-    ] uint8x @lengthOf(
-    //x
-    Foo)
-    ,
-// packet A { u8 x, }
-// packet A { u8 x, }
-}
-")).
-Eval vm_compute in ("<<<M1573>>>" ++ check (runes_of_ascii "packet
-//	t
-// trailing space 
-_x {
-// packet A { u8 x, }
-// c
-char[
-3
-    ] u8x @lengthOf(
-u8x ) , @calculatedFrom(""" ++ [128512]%N ++ runes_of_ascii """ // @lengthOf(
-)
-i16	Foo
-@lengthOf(	string_ string_
-    )`doc`	, repeat	i64 metadata , @lengthOf( string_
-) i8 // c
-u  `line1
-line2`	,
-}
-")).
-Eval vm_compute in ("<<<M1565>>>" ++ check (runes_of_ascii "packet
-//	t
-// trailing space 
-_x {
-// packet A { u8 x, }
-// c
-char[
-3
-    ] u8x @lengthOf(
-u8x ) , @calculatedFrom(""" ++ [128512]%N ++ runes_of_ascii """ // @lengthOf(
-)
-i16	uint64
-@lengthOf(	string_
-    )`doc`	, repeat	i64 metadata , @lengthOf( string_
-) i8 // c
-u  `line1
-line2`	,
-}
-")).
-Eval vm_compute in ("<<<M1656>>>" ++ check (runes_of_ascii "packet
-//	t
-// trailing space 
-_x {
-// packet A { u8 x, }
-// c
-char[
-3
-    ] u8x @lengthOf(
-u8x ) , @calculatedFrom(""" ++ [128512]%N ++ runes_of_ascii """ // @lengthOf(
-)
-i16	Foo
-@lengthOf(	string_
-    )`doc`	, repeat	i64 metadata , `@lengthOf( string_
-) i8 // c
-u  `line1
-line2`	,
-}
-")).
-Eval vm_compute in ("<<<M1569>>>" ++ check (runes_of_ascii "packet
-//	t
-// trailing space 
-_x {
-// packet A { u8 x, }
-// c
-char[
-3
-    ] u8x @lengthOf(
-u8x ) , @calculatedFrom(""" ++ [128512]%N ++ runes_of_ascii """ // @lengthOf(
-)
-i16	Foo
-string_	@lengthOf(
-    )`doc`	, repeat	i64 metadata , @lengthOf( string_
-) i8 // c
-u  `line1
-line2`	,
-}
-")).
-Eval vm_compute in ("<<<M1587>>>" ++ check (runes_of_ascii "packet
-//	t
-// trailing space 
-_x {
-// packet A { u8 x, }
-// c
-char[
-3
-    ] u8x @lengthOf(
-u8x ) , @calculatedFrom(""" ++ [128512]%N ++ runes_of_ascii """ // @lengthOf(
-)
-i16	Foo
-@lengthOf(	string_
-    )`doc`	 repeat	i64 metadata , @lengthOf( string_
-) i8 // c
-u  `line1
-line2`	,
-}
-")).
-Eval vm_compute in ("<<<M3749>>>" ++ check (runes_of_ascii "packet tag {
-    int8 packetx,
-}
-
-packet Foo {
-    //x
-    repeatCount @calculatedFrom(""x y""),
-    char[00] As @lengthOf(a1) `crlf
-        line`,
-    @tag(10)
-    len {
-        char[10] matchKey `" ++ [233]%N ++ runes_of_ascii "`,
-        f32a @lengthOf(u128) `it's`,
-    },
-}")).
-Eval vm_compute in ("<<<M3390>>>" ++ check (runes_of_ascii "// top
-MetaData
-    // c0
-body
-    // c1
-{
-    // c2
-i64
-    // c3
-pack
-    // c4
-`it's`
-    // c5
-,
-    // c6
-}
-    // c7
-packet
-    // c8
-stringy
-    // c9
-{
-    // c10
-int16
-    // c11
-calculatedFrom
-    // c12
-,
-    // c13
-}
-    // c14
-")).
-Eval vm_compute in ("<<<M3>>>" ++ check (runes_of_ascii "
-options	{
-} MetaData pack {string T ,
-    msg_type
-    // a // b
-    stringy `" ++ [233]%N ++ runes_of_ascii "`
-, }
     // " ++ [128512]%N ++ runes_of_ascii " emoji
-    packet a1 {
+    }, match A // a // b
+as u8x
+{
+3 : Packet 1  : Pad ,
 // " ++ [128512]%N ++ runes_of_ascii " emoji
-// packet A { u8 x, }
-repeat i32 x , i16 msg_type @calculatedFrom( ""it's""
-    )`two words` , } // " ++ [27880; 37322]%N)).
-Eval vm_compute in ("<<<M3531>>>" ++ check (runes_of_ascii "options {
+// trailing space 
+""1""
+    :
+//	t
+// " ++ [27880; 37322]%N ++ runes_of_ascii "
+options1 , }
+,asx
+    { o `// not a comment`
+    , repeat
+    rootA `// not a comment` ,
+    i8i8 @lengthOf(stringy ) `" ++ [28040; 24687; 31867; 22411]%N ++ runes_of_ascii "`
+    , zchar[
+    // trailing space 
+    3] options1 @calculatedFrom(""x y"" ) ,},
+} ,
+}  packet
+    // " ++ [128512]%N ++ runes_of_ascii " emoji
+    A { @calculatedFrom( """" ) @tag(0123456789 )f32a packetx `say ""hi""`,
+    repeat
+    x  uint8x ,}  options {} // trailing space ")).
+Eval vm_compute in ("<<<M429>>>" ++ check (runes_of_ascii "packet options1 {repeat
+u128 { repeat	Z9_//
+, Packet { falsey {match len // @lengthOf(
+as //x
+roots// packet A { u8 x, }
+{
+255 :
+    msg_type , 10 :
+string_ 0 : int
+//x
+// `tick` ""quote"" 'q'
+, }
+,// c
+int16 Packet @lengthOf( // packet A { u8 x, }
+f32a	)  ,  match lengthOf as //
+leftPad {[ 00
+,
+    ""abc"" ]: charz ,} , repeat zchar[42 ]
+Header `{ , }`,	}
+//
+// a // b
+, }
+//x
+// c
+,
+    // `tick` ""quote"" 'q'
+    repeat u {
+tag
+//	t
+// @lengthOf(
+{ /// triple
+char[ 0] rootA
+    @lengthOf( i8i8 )
+, } , zchar[007]charz
+    `two words` , }
+    , } ,zchar[ 3 ]
+u128
+    @lengthOf( falsey
+) , repeat string x // trailing space 
+,// packet A { u8 x, }
+repeat Foo _x `u8 x,` , match
+roots as
+Packet	{
+    ""1"" :// a // b
+falsey , } ,
+@lengthOf(
+uint8x
+//x
+// " ++ [128512]%N ++ runes_of_ascii " emoji
+) // packet A { u8 x, }
+@lengthOf(  lengthOf )@lengthOf( f32a )zchar[ 255 ] T `two words` ,f32a T ,
+}")).
+Eval vm_compute in ("<<<M644>>>" ++ check (runes_of_ascii "packet
+falsey { uint64 calculatedFrom@lengthOf(//	t
+msg_type )
+/// triple
+//	t
+, i16
+    zchar , f32	a1 ,
+    // " ++ [27880; 37322]%N ++ runes_of_ascii "
+    @calculatedFrom(
+""// no comment"")a1 /// triple
+`say ""hi""`,
+As
+// " ++ [128512]%N ++ runes_of_ascii " emoji
+//x
+Z9_ ,
+    // packet A { u8 x, }
+    repeatCount @lengthOf(uint8x ) , u8 o @calculatedFrom(	""`tick`"")`say ""hi""`
+,
+f32
+    A @lengthOf(
+    //
+    packetx
+    // `tick` ""quote"" 'q'
+    )`line1
+line2` ,}	MetaData len
+    {As rootA
+, zchar[ 10
+]
+BodyLength `it's` ,
+int32	crc
+`
+` ,
+zchar
+u8x
+, leftPad BodyLength ,
+} MetaData zchar
+{options1 calculatedFrom, zchar[ 7  ]trueish
+    // c
+    , } // " ++ [27880; 37322]%N ++ runes_of_ascii "
+root
+    packet Foo { @lengthOf( i8i8 )	repeat	zchar[  255 ] u `// not a comment`
+,} MetaData // " ++ [27880; 37322]%N ++ runes_of_ascii "
+int
+    /// triple
+    { uint16 matchKey  , int16 // `tick` ""quote"" 'q'
+x_y_z//
+`say ""hi""` ,
+leftPad Logon ,}
+")).
+Eval vm_compute in ("<<<M1296>>>" ++ check (runes_of_ascii "packet
+    body { @tag(255 ) int @lengthOf( matchKey
+    ) `tab	here` ,
+}
+    packet Z9_ { @lengthOf( As
+)
+    repeat _x
+lengthOf ,	@tag( 0123456789
+    ) repeat
+uint8x ,int64  stringy@calculatedFrom(
+    ""{,}"" )`crlf
+line`
+, //x
+@lengthOf(	i8i8)@tag( 4294967296	) @rightPad ( // c
+'0' // `tick` ""quote"" 'q'
+) char[
+    // c
+    3]
+int , } packet roots { } root
+packet body { match f32a as  u8x{//x
+""\" ++ [233]%N ++ runes_of_ascii """ //x
+:	chars, } , @tag(255 )
+@tag( 00) trueish
+Header, @tag( //x
+1)
+match
+A
+    as falsey { [""a\""b"" ]: i64_ ,// trailing space 
+[ 7 ,""packet"" , ""{,}""
+, 4294967296 , 007] :u128 , 0
+:
+string_ , 007 : x
+    , 1 :As ,
+    }
+    , @lengthOf(
+    options1 ) repeat u16  Header
+`` ,string trueish
+, // " ++ [128512]%N ++ runes_of_ascii " emoji
+@lengthOf( len ) x repeatCount
+    `crlf
+line` ,
+    }
+")).
+Eval vm_compute in ("<<<M1086>>>" ++ check (runes_of_ascii "packet
+u128 {
+    @tag( 0 ) BodyLength { Z9_ {  stringy {	metadata
+// @lengthOf(
+// a // b
+, } ,	zchar @lengthOf(
+x_y_z)
+, match	lengthOf
+as
+    float{ 10 : repeatCount,
+}
+    , repeat
+string Pad `" ++ [233]%N ++ runes_of_ascii "` , } , // packet A { u8 x, }
+u64
+u128 @calculatedFrom( ""a\""b""
+    ) ,} ,@rightPad
+(	'0') uint32
+    x_y_z@lengthOf(crc ) ,
+    match tag	as
+roots {
+    4294967296 : packetx , 007
+    :
+    Packet
+,// packet A { u8 x, }
+[ """ ++ [128512]%N ++ runes_of_ascii """
+,	7
+// trailing space 
+//
+, 255 // " ++ [27880; 37322]%N ++ runes_of_ascii "
+, ""a	b""
+]
+: x_y_z
+,
+3	:
+    //	t
+    u128,
+""a	b"" : u128,}  , Foo
+@lengthOf( o ), i32 int
+    , options1 ,	@rightPad(
+    ) @rightPad (  '\x00' )
+x
+`crlf
+line` , @tag(
+255
+)  int16 u8x@lengthOf(trueish)  `" ++ [28040; 24687; 31867; 22411]%N ++ runes_of_ascii "` ,
+f64 leftPad @calculatedFrom( ""CRC32"" ) `doc`,
+    }")).
+Eval vm_compute in ("<<<M734>>>" ++ check (runes_of_ascii "options {
+    } packet x {	MetaDataX @lengthOf( _x // @lengthOf(
+),
+    // " ++ [128512]%N ++ runes_of_ascii " emoji
+    }
+root
+    packet metadata{ string float``
+,char[ 65535 ]  T `it's`, @lengthOf( msg_type) @tag(42 )
+match Header as
+    chars  { [
+10,
+    7
+]:
+a1 ,
+    [//x
+""1""
+// c
+//
+] : u128 4294967296
+    : options1 , } , // trailing space 
+int	@calculatedFrom( ""`tick`""
+    ) ,
+    MetaDataX
+// `tick` ""quote"" 'q'
+// c
+packetx , zchar[ 10] o, @tag( 007)
+    u128 Pad , @calculatedFrom( ""{,}""
+    //	t
+    )
+    // `tick` ""quote"" 'q'
+    match options1 as BodyLength{ [00	, 255 , ""x y""
+]	:
+A ""a\\"" :T ,[ 7	,
+    42 ,65535, ""a\""b""
+, 7
+    , 007 , //	t
+""`tick`""  , 0 ]: matchKey ""CRC32""
+    // c
+    :	falsey ,
+} , }
+")).
+Eval vm_compute in ("<<<M4277>>>" ++ check (runes_of_ascii "packet tag {
+    float32 repeatCount @calculatedFrom(""// no comment""),
+}
+
+packet i64_ {
+    char[00] calculatedFrom,// " ++ [128512]%N ++ runes_of_ascii " emoji
+    @calculatedFrom(""packet"")
+    i16 Packet,
+    falsey {
+        char[] calculatedFrom @lengthOf(stringy) ``,
+    },
+    repeat i32 matchKey,
+    repeat char[7] tag `// not a comment`,
+    leftPad {
+        // @lengthOf(
+        char[] i8i8,
+    },
+    @lengthOf(x_y_z)
+    char[3] matchKey ``,
+    float {
+        char[] chars,
+        repeat zchar[1] x_y_z,
+    },
+    i8 x_y_z,
+    string asx,
+}
+
+root packet int {
+    chars @lengthOf(Foo) `a\`,
+    repeat char[0123456789] BodyLength,
+    i8 T,
+    @rightPad()
+    u64 lengthOf,
+}")).
+Eval vm_compute in ("<<<M3663>>>" ++ check (runes_of_ascii "// top
+options // c0a
+  // c0b
+{ // c1a
+  // c1b
+LittleEndian
+    // c2
+=
+    // c3
+true ; // c5
+}
+    // c6
+packet
+    // c7
+Logon // c8a
+  // c8b
+{
+    // c9
+u8 x // c11
+, // c12
+string // c13a
+  // c13b
+user ,
+    // c15
+} packet // c17a
+  // c17b
+Logout {
+    // c19
+u16
+    // c20
+reason , // c22
+} packet // c24
+Empty {
+    // c26
+} // c27
+root // c28
+packet Frame
+    // c30
+{
+    // c31
+u16 MsgType , // c34a
+  // c34b
+u16 BodyLen @lengthOf( // c37
+Body // c38a
+  // c38b
+) // c39
+, u8 flags
+    // c42
+, Logon // c44a
+  // c44b
+Body
+    // c45
+, // c46
+u32
+    // c47
+trailer // c48
+,
+    // c49
+} // c50a
+  // c50b
+")).
+Eval vm_compute in ("<<<M844>>>" ++ check (runes_of_ascii "root packet i8i8{ }
+    root packet zchar {zchar[ 4294967296 ]
+i8i8, @lengthOf(f32a
+) match lengthOf as tag // a // b
+{ 00 :
+As,
+}
+,
+msg_type`" ++ [233]%N ++ runes_of_ascii "` , i64_ @calculatedFrom( """" ) ,
+    zchar[
+    //
+    3 ]//	t
+roots
+    , options1`u8 x,` ,
+@lengthOf( string_)
+BodyLength int `// not a comment`,
+} packet x_y_z
+    { @rightPad( ' ' )
+    //x
+    options1
+    @calculatedFrom( ""`tick`"" ) ,
+    float64
+    As @lengthOf(
+a1
+    ) ,
+    char[]
+a1 ,
+}packet
+packetx
+    {
+@leftPad ( '\x00'
+)stringy	`a\` , } packet packetx {@lengthOf(
+tag
+)	repeat  char T , @leftPad (' ' )  options1 matchKey  ,
+    }
+")).
+Eval vm_compute in ("<<<M1130>>>" ++ check (runes_of_ascii "root packet Foo {u64 calculatedFrom @lengthOf( u ) , u16
+len ,
+match metadata as
+a1{
+// `tick` ""quote"" 'q'
+// " ++ [27880; 37322]%N ++ runes_of_ascii "
+255 :roots
+,
+10: i8i8
+    [ // a // b
+00
+] :i8i8, [
+    ""abc""  ] :
+    Header
+,
+[
+    // packet A { u8 x, }
+    00 ] // packet A { u8 x, }
+: x , ""abc"" :
+Logon } , @leftPad(
+    '0') // " ++ [27880; 37322]%N ++ runes_of_ascii "
+Pad{  zchar[ 10] asx `{ , }`, Header@calculatedFrom(
+""a\\"" ) , repeat T
+,
+int16	roots `// not a comment`,  } ,	}packet o { @tag( 00
+) @leftPad ( '\x00'
+// `tick` ""quote"" 'q'
+//x
+) Z9_
+//	t
+//
+@calculatedFrom( ""CRC32"" ) ,@lengthOf(	crc
+//x
+//
+)
+    zchar
+, }
+")).
+Eval vm_compute in ("<<<M485>>>" ++ check (runes_of_ascii "packet	options1 { // " ++ [27880; 37322]%N ++ runes_of_ascii "
+string
+    stringy @lengthOf( u8x// trailing space 
+)	`it's` ,  zchar[ 7] // a // b
+Packet`tab	here` ,char[]  leftPad `" ++ [28040; 24687; 31867; 22411]%N ++ runes_of_ascii "` , f32 packetx
+`a\`
+    ,  char[]
+    //	t
+    len,
+    metadata // trailing space 
+{ float32 Pad @lengthOf(tag),
+repeat string_ lengthOf`crlf
+line`,
+// `tick` ""quote"" 'q'
+/// triple
+} , @lengthOf(	asx ) char[]trueish @lengthOf(
+Header ) `tab	here`  , @leftPad( '0'
+    )char[] Foo,zchar[10
+    ]packetx
+, repeat leftPad `u8 x,` ,
+    }
+    packet pack
+{
+    } options {
+    //
+    }
+")).
+Eval vm_compute in ("<<<M3206>>>" ++ check (runes_of_ascii "// top
+options
+    // c0
+{
     // c1
-LittleEndian // c2
-= true
+charz
+    // c2
+=
+    // c3
+f64
     // c4
 ;
     // c5
-} // c6
-root // c7a
-  // c7b
-packet
+metadata
+    // c6
+=
+    // c7
+7
     // c8
-P { repeat // c11a
-  // c11b
-char
+;
+    // c9
+}
+    // c10
+options
+    // c11
+{
     // c12
-cs
+u128
     // c13
-, u8 x // c16
-,
+=
+    // c14
+10
+    // c15
+options1
+    // c16
+=
     // c17
-} // c18a
-  // c18b
+true
+    // c18
+;
+    // c19
+zchar
+    // c20
+=
+    // c21
+uint16
+    // c22
+;
+    // c23
+lengthOf
+    // c24
+=
+    // c25
+true
+    // c26
+;
+    // c27
+}
+    // c28
+options
+    // c29
+{
+    // c30
+len
+    // c31
+=
+    // c32
+1
+    // c33
+}
+    // c34
 ")).
-Eval vm_compute in ("<<<M1847>>>" ++ check (runes_of_ascii "options { @lengthOftrueish = ""`tick`"" ; string_= """ ++ [233]%N ++ runes_of_ascii "t" ++ [233]%N ++ runes_of_ascii """
+Eval vm_compute in ("<<<M4074>>>" ++ check (runes_of_ascii "options {
+    x = ""abc"";
+}
+
+root packet calculatedFrom {
+    // trailing space 
+    @tag(1)
+    match x_y_z as int {
+        [""it's""] : uint8x,
+        4294967296 : i64_,
+        ""x y"" : BodyLength,
+        ""x y"" : u8x,
+    },
+    @tag(007)
+    @tag(7)
+    // " ++ [27880; 37322]%N ++ runes_of_ascii "
+    @lengthOf(x_y_z)
+    u64 crc,
+    @calculatedFrom(""CRC32"")
+    u64 chars @calculatedFrom(""// no comment""),
+    @rightPad()
+    zchar[10] lengthOf,
+    char[65535] u128,
+}
+
+options {
+    falsey = true;
+}
+
+packet BodyLength {
+}")).
+Eval vm_compute in ("<<<M1039>>>" ++ check (runes_of_ascii "MetaData MetaDataX{i64_ leftPad , zchar[7 ] u8x`" ++ [28040; 24687; 31867; 22411]%N ++ runes_of_ascii "` , zchar[// `tick` ""quote"" 'q'
+00 ] crc  `crlf
+line` , char[
+    255 ]
+    zchar
+, u32 x//
+`tab	here`
+, i64_ falsey `it's` ,} MetaData A
+/// triple
+//	t
+{ char[ 7 ] // `tick` ""quote"" 'q'
+calculatedFrom /// triple
+`two words` , asx asx `tab	here`, float64 trueish,zchar[ 42 ] f32a `tab	here` // " ++ [128512]%N ++ runes_of_ascii " emoji
+, char[]
+    u128 ,
+    } packet uint8x { @tag(  1
+//
+// @lengthOf(
+) repeat
+    //	t
+    char[]
+Packet, } // c")).
+Eval vm_compute in ("<<<M964>>>" ++ check (runes_of_ascii "// c
+root packet o{ @tag( 42
+) a1
+, }
+options { asx
+=char[ 0	]
+/// triple
+// `tick` ""quote"" 'q'
+;
+int =
     // c
-    } root
-    packet body { stringy @calculatedFrom(
-""a	b"" ) `line1
-line2` , }
+    '\x00' ;_x	=
+""it's""	packetx // a // b
+= ""// no comment""  u8x = """ ++ [233]%N ++ runes_of_ascii "t" ++ [233]%N ++ runes_of_ascii """ } root// trailing space 
+packet T { @lengthOf( float )match falsey
+//	t
+// trailing space 
+as  matchKey {
+""a\\""
+: x_y_z
+// a // b
+// `tick` ""quote"" 'q'
+,
+    //x
+    } //
+, } options // a // b
+{ zchar = 0// trailing space 
+repeatCount= uint64
+    ;// a // b
+}")).
+Eval vm_compute in ("<<<M3632>>>" ++ check (runes_of_ascii "options {
+    LittleEndian = true;
+    StringPrefixLenType = u16;
+    ArrayPrefixLenType = u64;
+}
+packet Fill {
+}
 packet Logon {
-    @leftPad(
-    ' ' ) //	t
-u16 string_ `u8 x,` ,
+    repeat char[3] Tail,
+    zchar[6] venue,
+    repeat string Side2,
+}
+root packet Cancel {
+    char[] Flags,
+    char[] OrderId,
+    zchar[6] msgKind,
+    Fill,
+    char[] Acct,
+    u8 f1,
+    match f1 as Body {
+        188 : Fill,
+        5 : Logon,
+    },
+    u32 clOrdID @calculatedFrom(""CRC32""),
 }
 ")).
-Eval vm_compute in ("<<<M1850>>>" ++ check (runes_of_ascii "options { trueish = ""`tick`"" ; string_= """ ++ [233]%N ++ runes_of_ascii "t" ++ [233]%N ++ runes_of_ascii """
+Eval vm_compute in ("<<<M1368>>>" ++ check (runes_of_ascii "
+root  packet crc  { @leftPad (
+    '0'
+) @lengthOf( float)roots
+    Logon `u8 x,` , char[ 3
+] repeatCount `a\`
+// `tick` ""quote"" 'q'
+// @lengthOf(
+,match
+uint8x as//x
+msg_type{ 10
+:  body , 0123456789  :o
+} ,
+repeat x
+// c
+// c
+{ uint8 roots
+@calculatedFrom( ""abc"" ) `" ++ [28040; 24687; 31867; 22411]%N ++ runes_of_ascii "`,
+}
+, } packet //	t
+calculatedFrom
+{uint8 MetaDataX `// not a comment` , }
+packet crc {
+Z9_
+{ repeat crc `doc`
+,Z9_ ``,  }, }
+// a // b
+")).
+Eval vm_compute in ("<<<M4271>>>" ++ check (runes_of_ascii "// top
+root packet Frame {
+    // c3
+    u8 K,
+    // c6
+    Logon first,// c9a
+    // c9b
+    match K as Body {
+        // c14a
+        // c14b
+        1 : Logon,
+        // c18a
+        // c18b
+        2 : Logout,
+        // c22
+    },
+}
+
+// c25
+packet Logon {
+    // c28
+    string user,// c31a
+    // c31b
+}// c32a
+
+// c32b
+packet Logout {
+    // c35
+    u16 reason,// c38a
+    // c38b
+}
+// c39")).
+Eval vm_compute in ("<<<M3308>>>" ++ check (runes_of_ascii "// top
+root
+    // c0
+packet
+    // c1
+matchKey
+    // c2
+{
+    // c3
+zchar[
+    // c4
+3
+    // c5
+]
+    // c6
+pack
+    // c7
+@calculatedFrom(
+    // c8
+""a	b""
+    // c9
+)
+    // c10
+`doc`
+    // c11
+,
+    // c12
+}
+    // c13
+options
+    // c14
+{
+    // c15
+}
+    // c16
+MetaData
+    // c17
+A
+    // c18
+{
+    // c19
+int8
+    // c20
+msg_type
+    // c21
+,
+    // c22
+}
+    // c23
+")).
+Eval vm_compute in ("<<<M4049>>>" ++ check (runes_of_ascii "
+packet
+    float
+	{ @leftPad
+(
+    ' '
+
+)	@calculatedFrom(	// `tick` ""quote"" 'q'
+""a\""b""
+
+    )	@calculatedFrom( 
+""packet"" )
+    u32
+
+msg_type 
+  //
+		// a // b
+`" ++ [233]%N ++ runes_of_ascii "`	, @tag( 
+00	)
+
+    @rightPad
+	(
+
+    ' '
+    ) repeat  chars metadata // " ++ [128512]%N ++ runes_of_ascii " emoji
+    ,  @rightPad
+    ('0')
+	tag
+	string_
+
+    ,
+
+repeat
+
+f64
+    int 
+`u8 x,`
+
+    ,
+	} 
+        // c
+")).
+Eval vm_compute in ("<<<M1182>>>" ++ check (runes_of_ascii "packet Packet{@tag(
+4294967296
+    )  charz	{ repeat
+char[
+    0123456789] BodyLength ,repeat trueish stringy , }, }options { body = char ; leftPad =uint16
+    //	t
+    ; stringy
+    = true ; packetx
+= true
+// `tick` ""quote"" 'q'
+//
+float=char[ 255 ]}
+// `tick` ""quote"" 'q'
+/// triple
+root packet	len {  @leftPad  ( '0') uint64
+    a1
+    ,} 	 ")).
+Eval vm_compute in ("<<<M3806>>>" ++ check (runes_of_ascii "options {
+    len = ""x y"";
+}
+
+packet repeatCount {
+    zchar[7] f32a,
+}
+
+packet asx {
+    len @calculatedFrom(""a\\"") `line1
+    line2`,
+    @lengthOf(T)
+    u8x `a\`,
+    @tag(3)
+    char Pad `
+    `,
+    char[4294967296] metadata @calculatedFrom(""CRC32""),
+    @lengthOf(Header)
+    u64 uint8x @calculatedFrom(""x y""),
+}
+// " ++ [128512]%N ++ runes_of_ascii " emoji")).
+Eval vm_compute in ("<<<M1913>>>" ++ check (runes_of_ascii "MetaData
+    u { }  options {
+// c
+// @lengthOf(
+float = int8 ;rootA uint16 false ; As =	int16 // `tick` ""quote"" 'q'
+repeatCount
+    // trailing space 
+    =
+    int16
+; u8x =
+    //	t
+    '\x00' ; } options	{
+    repeatCount
+= 0
+u128
+    //
+    = false ; i64_
+// trailing space 
+// `tick` ""quote"" 'q'
+= '0' ; //	t
+}
+")).
+Eval vm_compute in ("<<<M90>>>" ++ check (runes_of_ascii "packet charz {repeat char[ 3 ]
+BodyLength,As stringy, match
+    tag as uint8x { //
+[ ""it's"" , 007
+    , 4294967296
+    // c
+    ] : uint8x ,
+}, // a // b
+@tag( 0
+)/// triple
+repeat char[	7	] u	,}
+    // packet A { u8 x, }
+    MetaData options1
+    { Z9_  _x ,	} packet BodyLength
+{} MetaData chars { float Foo,
+}")).
+Eval vm_compute in ("<<<M2071>>>" ++ check (runes_of_ascii "MetaData
+    u { }  options " ++ [65279]%N ++ runes_of_ascii " {
+// c
+// @lengthOf(
+float = int8 ;rootA =false ; As =	int16 // `tick` ""quote"" 'q'
+repeatCount
+    // trailing space 
+    =
+    int16
+; u8x =
+    //	t
+    '\x00' ; } options	{
+    repeatCount
+= 0
+u128
+    //
+    = false ; i64_
+// trailing space 
+// `tick` ""quote"" 'q'
+= '0' ; //	t
+}
+")).
+Eval vm_compute in ("<<<M1917>>>" ++ check (runes_of_ascii "MetaData
+    u { }  options {
+// c
+// @lengthOf(
+float = int8 ;rootA =; false As =	int16 // `tick` ""quote"" 'q'
+repeatCount
+    // trailing space 
+    =
+    int16
+; u8x =
+    //	t
+    '\x00' ; } options	{
+    repeatCount
+= 0
+u128
+    //
+    = false ; i64_
+// trailing space 
+// `tick` ""quote"" 'q'
+= '0' ; //	t
+}
+")).
+Eval vm_compute in ("<<<M2074>>>" ++ check (runes_of_ascii "MetaData
+    u { }  options {
+// c
+// @lengthOf(
+float = int8 ;rootA =false ; " ++ [21517; 23383]%N ++ runes_of_ascii " =	int16 // `tick` ""quote"" 'q'
+repeatCount
+    // trailing space 
+    =
+    int16
+; u8x =
+    //	t
+    '\x00' ; } options	{
+    repeatCount
+= 0
+u128
+    //
+    = false ; i64_
+// trailing space 
+// `tick` ""quote"" 'q'
+= '0' ; //	t
+}
+")).
+Eval vm_compute in ("<<<M1925>>>" ++ check (runes_of_ascii "MetaData
+    u { }  options {
+// c
+// @lengthOf(
+float = int8 ;rootA =false ;  =	int16 // `tick` ""quote"" 'q'
+repeatCount
+    // trailing space 
+    =
+    int16
+; u8x =
+    //	t
+    '\x00' ; } options	{
+    repeatCount
+= 0
+u128
+    //
+    = false ; i64_
+// trailing space 
+// `tick` ""quote"" 'q'
+= '0' ; //	t
+}
+")).
+Eval vm_compute in ("<<<M724>>>" ++ check (runes_of_ascii "// " ++ [128512]%N ++ runes_of_ascii " emoji
+packet
+    u { int `two words` ,
+} packet
+    Packet	{ repeat zchar Foo// @lengthOf(
+,	} packet f32a // c
+{ uint32
+Packet`
+`, @lengthOf(
+    msg_type	) @calculatedFrom(
+    ""it's"" )repeat
+    repeatCount { repeat zchar[ 255 ] u8x ,repeat MetaDataX// c
+`" ++ [28040; 24687; 31867; 22411]%N ++ runes_of_ascii "` , int64
+    Pad `tab	here` ,} ,}
+")).
+Eval vm_compute in ("<<<M3986>>>" ++ check (runes_of_ascii "MetaData T {
+    Foo lengthOf,
+    string packetx `// not a comment`,
+    zchar[0] metadata `crlf
+    line`,
+    x string_ `line1
+    line2`,
+}
+
+packet repeatCount {
+    char[255] A @calculatedFrom(""a\\""),
+    float32 BodyLength @lengthOf(_x) `doc`,
+    char[] trueish @calculatedFrom(""packet""),
+}")).
+Eval vm_compute in ("<<<M4110>>>" ++ check (runes_of_ascii "packet rootA {
+    @lengthOf(A)
+    @leftPad('0')
+    @lengthOf(_x)
+    char[0] len,
+}
+
+root packet _x {
+    @lengthOf(MetaDataX)
+    u16 x `say ""hi""`,
+    match string_ as Foo {
+        42 : string_,
+        00 : T,
+    },
+    char[] trueish,
+    repeat calculatedFrom x_y_z,// a // b
+}")).
+Eval vm_compute in ("<<<M32>>>" ++ check (runes_of_ascii "options	{
+    // `tick` ""quote"" 'q'
+    Foo
+= zchar[
+    1
+]uint8x =""// no comment"" Pad
+=
+    //
+    char[] ;
+    A
+= 4294967296
+    a1 = ""`tick`"" ; } packet BodyLength  {
+@calculatedFrom(
+""packet"" ) roots `// not a comment`,@tag( 10 ) f32 uint8x/// triple
+`" ++ [28040; 24687; 31867; 22411]%N ++ runes_of_ascii "`
+,	}
+
+")).
+Eval vm_compute in ("<<<M228>>>" ++ check (runes_of_ascii "
+packet
+Z9_  { } packet T
+{
+repeat
+    charz {match float as // " ++ [128512]%N ++ runes_of_ascii " emoji
+stringy {00 : f32a [ 00
+    //x
+    , 00 ,""a\\""
+// packet A { u8 x, }
+// a // b
+, 0 ,	7, 0 ] : As , } ,//	t
+uint32 asx ,
+//
+/// triple
+repeat u8x {
+    repeat
+//x
+//
+u8 string_ ,
+} , } , }
+")).
+Eval vm_compute in ("<<<M1583>>>" ++ check (runes_of_ascii "packet
+//	t
+// trailing space 
+_x {
+// packet A { u8 x, }
+// c
+char[
+3
+    ] u8x @lengthOf(
+u8x ) , @calculatedFrom(""" ++ [128512]%N ++ runes_of_ascii """ // @lengthOf(
+)
+i16	Foo
+@lengthOf(	string_
+    )`doc` `doc`	, repeat	i64 metadata , @lengthOf( string_
+) i8 // c
+u  `line1
+line2`	,
+}
+")).
+Eval vm_compute in ("<<<M1553>>>" ++ check (runes_of_ascii "packet
+//	t
+// trailing space 
+_x {
+// packet A { u8 x, }
+// c
+char[
+3
+    ] u8x @lengthOf(
+u8x ) , @calculatedFrom(""" ++ [128512]%N ++ runes_of_ascii """ // @lengthOf(
+) )
+i16	Foo
+@lengthOf(	string_
+    )`doc`	, repeat	i64 metadata , @lengthOf( string_
+) i8 // c
+u  `line1
+line2`	,
+}
+")).
+Eval vm_compute in ("<<<M457>>>" ++ check (runes_of_ascii "packet options1 // a // b
+{ @leftPad ('0' )// " ++ [128512]%N ++ runes_of_ascii " emoji
+match uint8x as
+    // `tick` ""quote"" 'q'
+    T{
+42 : stringy ,[""1"" ] :i64_,//
+3
+:
+    string_
+    , ""a\\"" : metadata  , ""CRC32"" :
+int
+    //x
+    ""packet""
+:
+    rootA, } , } root packet i8i8
+{ }")).
+Eval vm_compute in ("<<<M1614>>>" ++ check (runes_of_ascii "packet
+//	t
+// trailing space 
+_x {
+// packet A { u8 x, }
+// c
+char[
+3
+    ] u8x @lengthOf(
+u8x ) , @calculatedFrom(""" ++ [128512]%N ++ runes_of_ascii """ // @lengthOf(
+)
+i16	Foo
+@lengthOf(	string_
+    )`doc`	, repeat	i64 metadata , string_ @lengthOf(
+) i8 // c
+u  `line1
+line2`	,
+}
+")).
+Eval vm_compute in ("<<<M1627>>>" ++ check (runes_of_ascii "packet
+//	t
+// trailing space 
+_x {
+// packet A { u8 x, }
+// c
+char[
+3
+    ] u8x @lengthOf(
+u8x ) , @calculatedFrom(""" ++ [128512]%N ++ runes_of_ascii """ // @lengthOf(
+)
+i16	Foo
+@lengthOf(	string_
+    )`doc`	, repeat	i64 metadata , @lengthOf( string_
+)  // c
+u  `line1
+line2`	,
+}
+")).
+Eval vm_compute in ("<<<M1602>>>" ++ check (runes_of_ascii "packet
+//	t
+// trailing space 
+_x {
+// packet A { u8 x, }
+// c
+char[
+3
+    ] u8x @lengthOf(
+u8x ) , @calculatedFrom(""" ++ [128512]%N ++ runes_of_ascii """ // @lengthOf(
+)
+i16	Foo
+@lengthOf(	string_
+    )`doc`	, repeat	i64  , @lengthOf( string_
+) i8 // c
+u  `line1
+line2`	,
+}
+")).
+Eval vm_compute in ("<<<M1542>>>" ++ check (runes_of_ascii "packet
+//	t
+// trailing space 
+_x {
+// packet A { u8 x, }
+// c
+char[
+3
+    ] u8x @lengthOf(
+u8x ) , """ ++ [128512]%N ++ runes_of_ascii """ // @lengthOf(
+)
+i16	Foo
+@lengthOf(	string_
+    )`doc`	, repeat	i64 metadata , @lengthOf( string_
+) i8 // c
+u  `line1
+line2`	,
+}
+")).
+Eval vm_compute in ("<<<M3939>>>" ++ check (runes_of_ascii "packet metadata {
+    @lengthOf(i8i8)
+    match BodyLength as Foo {
+        3 : len,
+    },
+    body @lengthOf(roots),
+    f32a x,
+}
+
+root packet i8i8 {
+    zchar[10] i64_ @calculatedFrom(""a\\"") `
+    `,
+}// packet A { u8 x, }")).
+Eval vm_compute in ("<<<M3626>>>" ++ check (runes_of_ascii "options {
+    StringPrefixLenType = u16;
+    FixedStringPadChar = ' ';
+}
+packet Party {
+}
+packet Quote {
+    repeat Party,
+    repeat char[2] f1,
+}
+packet Logon {
+}
+root packet Cancel {
+    uint16 x,
+    zchar[6] f1,
+}
+")).
+Eval vm_compute in ("<<<M3941>>>" ++ check (runes_of_ascii "
+MetaData float{ 	 // " ++ [27880; 37322]%N ++ runes_of_ascii "
+	}
+root packet Header {
+float{
+
+    i32
+    u8x
+	@lengthOf(
+a1)
+`u8 x,`, 
+}
+
+,
+char[] i64_@calculatedFrom(
+	""a\\"" ) `" ++ [233]%N ++ runes_of_ascii "`,
+
+    float64
+
+packetx `{ , }`
+	,
+	} // packet A { u8 x, }
+ 
+")).
+Eval vm_compute in ("<<<M1782>>>" ++ check (runes_of_ascii "options { trueish = ""`tick`"" ; string_= """ ++ [233]%N ++ runes_of_ascii "t" ++ [233]%N ++ runes_of_ascii """
     // c
     } root
     packet body { stringy @calculatedFrom(
 ""a	b"" ) `line1
 line2` , }
-packet Logon {
-    @leftPa'\x01'd(
+packet Logon Logon {
+    @leftPad(
     ' ' ) //	t
 u16 string_ `u8 x,` ,
 }
@@ -2333,7 +2175,7 @@ packet Logon {
 u16 string_ `u8 x,` ,
 }
 ")).
-Eval vm_compute in ("<<<M1672>>>" ++ check (runes_of_ascii " { trueish = ""`tick`"" ; string_= """ ++ [233]%N ++ runes_of_ascii "t" ++ [233]%N ++ runes_of_ascii """
+Eval vm_compute in ("<<<M1681>>>" ++ check (runes_of_ascii "options {  = ""`tick`"" ; string_= """ ++ [233]%N ++ runes_of_ascii "t" ++ [233]%N ++ runes_of_ascii """
     // c
     } root
     packet body { stringy @calculatedFrom(
@@ -2345,101 +2187,95 @@ packet Logon {
 u16 string_ `u8 x,` ,
 }
 ")).
-Eval vm_compute in ("<<<M185>>>" ++ check (runes_of_ascii "packet a1 {
-    char[ 0 ]
-len
-    `two words` , char[ 00 ]packetx ,} MetaData pack // a // b
-{	int64 a1 `crlf
-line` ,i64_  Foo,
-char[0123456789
-// " ++ [128512]%N ++ runes_of_ascii " emoji
-// " ++ [27880; 37322]%N ++ runes_of_ascii "
-] x
-    `tab	here` ,
-    }
-
-")).
-Eval vm_compute in ("<<<M3709>>>" ++ check (runes_of_ascii "
-// c
-  options 
-//	t
-	{ 
-
-// `tick` ""quote"" 'q'
-	/// triple
-	  repeatCount=
-
-00
-    tag
-=""{,}""	MetaDataX =
-'0' o
-=
-""`tick`""
-    //x
-	  // `tick` ""quote"" 'q'
-  	a1 
-=	""abc""
-
+Eval vm_compute in ("<<<M1193>>>" ++ check (runes_of_ascii "MetaData// trailing space 
+int {// " ++ [27880; 37322]%N ++ runes_of_ascii "
+u128 uint8x , // a // b
+string
+    o ,A metadata `u8 x,`  ,
+char[  10 ]
+rootA
+    , packetx x_y_z `doc` ,  string_ // `tick` ""quote"" 'q'
+trueish`doc` , }")).
+Eval vm_compute in ("<<<M3607>>>" ++ check (runes_of_ascii "root packet Frame {
+    u8 K,
+    Logon first,
+    match K as Body {
+        1 : Logon,
+        2 : Logout,
+    },
+}
+packet Logon {
+    string user,
+}
+packet Logout {
+    u16 reason,
 }
 ")).
-Eval vm_compute in ("<<<M224>>>" ++ check (runes_of_ascii "root
-packet Logon	{/// triple
-@calculatedFrom(
-    ""`tick`"" ) @rightPad ( ' '  )
-    @tag(
-    42 ) //	t
-char[ 3 ]
-trueish  @lengthOf(
-matchKey
-    // @lengthOf(
-    ) `" ++ [233]%N ++ runes_of_ascii "` ,}
+Eval vm_compute in ("<<<M187>>>" ++ check (runes_of_ascii "root packet u128 { char[  7 ]tag@calculatedFrom(
+""\" ++ [233]%N ++ runes_of_ascii """
+    ) // " ++ [128512]%N ++ runes_of_ascii " emoji
+`" ++ [233]%N ++ runes_of_ascii "`, @rightPad ( )
+    packetx , @lengthOf(  o
+    )	lengthOf
+@lengthOf( float )
+`// not a comment`,
+}
 ")).
-Eval vm_compute in ("<<<M1810>>>" ++ check (runes_of_ascii "options { trueish = ""`tick`"" ; string_= """ ++ [233]%N ++ runes_of_ascii "t" ++ [233]%N ++ runes_of_ascii """
-    // c
-    } root
-    packet body { stringy @calculatedFrom(
-""a	b"" ) `line1
-line2` , }
-packet Logon {
-    @leftPad(
-    ' '")).
-Eval vm_compute in ("<<<M392>>>" ++ check (runes_of_ascii "
-root
-packet
-calculatedFrom
-/// triple
-// packet A { u8 x, }
-{ i64_
-    // @lengthOf(
-    Packet `a\` ,
-zchar[ 42] Foo@lengthOf(
-tag) /// triple
-`crlf
-line`
-, }
-")).
-Eval vm_compute in ("<<<M1006>>>" ++ check (runes_of_ascii "options {
-    calculatedFrom //x
-=float64; x_y_z = 00 } packet roots { @lengthOf( trueish)  zchar[
-// trailing space 
-// c
-42  ] charz , } MetaData Header {  }")).
-Eval vm_compute in ("<<<M1203>>>" ++ check (runes_of_ascii "root
-packet i8i8 { } options {pack
-=
-char[3
-    ]body= ""// no comment"" ;
-// @lengthOf(
-// c
-i8i8
+Eval vm_compute in ("<<<M4045>>>" ++ check (runes_of_ascii "packet Z9_ {
+    // trailing space 
+    // " ++ [128512]%N ++ runes_of_ascii " emoji
+    @calculatedFrom(""1"")
     // packet A { u8 x, }
-    = i32 //	t
-;	falsey
-=""a\\"" }
+    matchKey @calculatedFrom(""" ++ [128512]%N ++ runes_of_ascii """) `tab	here`,
+}
+// packet A { u8 x, }")).
+Eval vm_compute in ("<<<M3918>>>" ++ check (runes_of_ascii "  root packet
+
+options1  {
+}options
+
+{
+
+u 
+=
+
+    4294967296 
+As=
+    ""abc"" f32a
+	=' '
+	; len// packet A { u8 x, }
+    = char[] 
+;
+
+    uint8x
+
+    = true 
+}
 ")).
-Eval vm_compute in ("<<<M2399>>>" ++ check (runes_of_ascii "// c
+Eval vm_compute in ("<<<M2356>>>" ++ check (runes_of_ascii "// c
 packet x { @lengthOf( metadata ) repeat lengthOf
-,a1{ {
+,a1{
+trueish	,// c
+repeat//	t
+MetaDataX , } , zchar[ zchar[
+    42	] rootA // `tick` ""quote"" 'q'
+,
+    }
+")).
+Eval vm_compute in ("<<<M34>>>" ++ check (runes_of_ascii "// " ++ [27880; 37322]%N ++ runes_of_ascii "
+root packet chars { @rightPad(
+    //	t
+    )
+    u8x @calculatedFrom( ""a	b"" ) `line1
+line2` ,
+repeat
+tag {
+    repeat options1 f32a
+    `" ++ [28040; 24687; 31867; 22411]%N ++ runes_of_ascii "` , },	}
+")).
+Eval vm_compute in ("<<<M2374>>>" ++ check (runes_of_ascii "// c
+packet x { @lengthOf( metadata ) repeat lengthOf
+10 a1{
 trueish	,// c
 repeat//	t
 MetaDataX , } , zchar[
@@ -2447,8 +2283,21 @@ MetaDataX , } , zchar[
 ,
     }
 ")).
-Eval vm_compute in ("<<<M2180>>>" ++ check (runes_of_ascii "options{
+Eval vm_compute in ("<<<M2110>>>" ++ check (runes_of_ascii "options{
 _x
+= true
+} options
+{ { o	= /// triple
+false
+    ; chars
+= ""\n"" } root packet	Pad
+/// triple
+// packet A { u8 x, }
+{	chars
+    // a // b
+    ,}")).
+Eval vm_compute in ("<<<M2082>>>" ++ check (runes_of_ascii "options _x
+{
 = true
 } options
 { o	= /// triple
@@ -2459,12 +2308,12 @@ false
 // packet A { u8 x, }
 {	chars
     // a // b
-    , ,}")).
-Eval vm_compute in ("<<<M2191>>>" ++ check (runes_of_ascii "options{
+    ,}")).
+Eval vm_compute in ("<<<M2101>>>" ++ check (runes_of_ascii "options{
 _x
 = true
-} options
-/{ o	= /// triple
+options }
+{ o	= /// triple
 false
     ; chars
 = ""\n"" } root packet	Pad
@@ -2473,22 +2322,9 @@ false
 {	chars
     // a // b
     ,}")).
-Eval vm_compute in ("<<<M2126>>>" ++ check (runes_of_ascii "options{
+Eval vm_compute in ("<<<M2089>>>" ++ check (runes_of_ascii "options{
 _x
-= true
-} options
-{ o	= /// triple
-;
-    false chars
-= ""\n"" } root packet	Pad
-/// triple
-// packet A { u8 x, }
-{	chars
-    // a // b
-    ,}")).
-Eval vm_compute in ("<<<M2169>>>" ++ check (runes_of_ascii "options{
-_x
-= true
+ true
 } options
 { o	= /// triple
 false
@@ -2496,329 +2332,376 @@ false
 = ""\n"" } root packet	Pad
 /// triple
 // packet A { u8 x, }
-	chars
-    // a // b
-    ,}")).
-Eval vm_compute in ("<<<M2144>>>" ++ check (runes_of_ascii "options{
-_x
-= true
-} options
-{ o	= /// triple
-false
-    ; chars
-=  } root packet	Pad
-/// triple
-// packet A { u8 x, }
 {	chars
     // a // b
     ,}")).
-Eval vm_compute in ("<<<M3837>>>" ++ check (runes_of_ascii "//
-MetaData calculatedFrom {
-    char[42] tag,
-    body tag ``,
-    int16 int,
-    zchar[42] tag `doc`,
-    char[] matchKey,
-    uint32 Z9_,
-}//	t")).
-Eval vm_compute in ("<<<M862>>>" ++ check (runes_of_ascii "MetaData
-trueish { o charz `tab	here`	,}  MetaData int {zchar[	4294967296  ] a1 `say ""hi""` ,
-}	options { charz
-    //	t
-    =	'0'  tag	=""abc""}")).
-Eval vm_compute in ("<<<M3706>>>" ++ check (runes_of_ascii "root packet _x {
-    @rightPad(' ')
-    f32 zchar @calculatedFrom(""abc"") `
-    `,
-    char[255] roots `crlf
-    line`,
-    repeat u8x,
-}")).
-Eval vm_compute in ("<<<M335>>>" ++ check (runes_of_ascii "MetaData u { BodyLength repeatCount // packet A { u8 x, }
+Eval vm_compute in ("<<<M2378>>>" ++ check (runes_of_ascii "// c
+packet x { @lengthOf( metadata ) repeat lengthOf
+,a1{
+trueish	,// c
+]//	t
+MetaDataX , } , zchar[
+    42	] rootA // `tick` ""quote"" 'q'
 ,
-} options {
-string_
-= false ; i8i8=10 ;}
-    root packet float { } //")).
-Eval vm_compute in ("<<<M1423>>>" ++ check (runes_of_ascii "
+    }
+")).
+Eval vm_compute in ("<<<M2403>>>" ++ check (runes_of_ascii "// c
+packet x { @lengthOf( metadata ) repeat lengthOf
+,a1{
+	,// c
+repeat//	t
+MetaDataX , } , zchar[
+    42	] rootA // `tick` ""quote"" 'q'
+,
+    }
+")).
+Eval vm_compute in ("<<<M868>>>" ++ check (runes_of_ascii "MetaData  tag
+    {char[ 3
+    // trailing space 
+    ]u8x , packetx a1 , } // packet A { u8 x, }
+MetaData chars
+{ i16 uint8x
+    `tab	here` ,}")).
+Eval vm_compute in ("<<<M4179>>>" ++ check (runes_of_ascii "root
+    packet matchKey  { zchar[	3 ] 
+pack 
+@calculatedFrom( ""a	b"" 
+)`doc` ,
+}
+options { }
+MetaData
+    // c
+  	A{
+	int8
+
+msg_type , }
+
+")).
+Eval vm_compute in ("<<<M4057>>>" ++ check (runes_of_ascii "packet	A {match
+
+    k as
+n 
+{
+    [ 1
+	,
+	22,
+007
+,
+4 , 5 ,66
+,
+
+    7 ,
+8 ,  9
+
+, 10 ,	11 ,
+    12
+]
+:	B
+    2 :
+	C
+
+} ,}
+")).
+Eval vm_compute in ("<<<M1443>>>" ++ check (runes_of_ascii "
 packet
-    falsey { Header@calculatedFrom(""packet"" ""packet""  ) , char[
+    falsey { Header@calculatedFrom(""packet""  ) , char[
+    0123456789 0123456789 ] packetx
+    , } // `tick` ""quote"" 'q'")).
+Eval vm_compute in ("<<<M1413>>>" ++ check (runes_of_ascii "
+packet
+    falsey { Header Header@calculatedFrom(""packet""  ) , char[
     0123456789 ] packetx
     , } // `tick` ""quote"" 'q'")).
-Eval vm_compute in ("<<<M1949>>>" ++ check (runes_of_ascii "MetaData
+Eval vm_compute in ("<<<M1142>>>" ++ check (runes_of_ascii "root
+    packet Foo	{@rightPad ( '\x00' ) Header
+    // " ++ [27880; 37322]%N ++ runes_of_ascii "
+    Pad
+`tab	here`,@rightPad  (
+'\x00'
+) zchar[ 1	]x_y_z , }
+")).
+Eval vm_compute in ("<<<M3341>>>" ++ check (runes_of_ascii "root packet matchKey { zchar[ 3 ] pack @calculatedFrom( ""a	b"" ) `doc` , } options
+// c
+{ } MetaData A { int8 msg_type , }")).
+Eval vm_compute in ("<<<M1463>>>" ++ check (runes_of_ascii "
+packet
+    falsey { Header@calculatedFrom(""packet""  ) , char[
+    0123456789 ] packetx
+    , } } // `tick` ""quote"" 'q'")).
+Eval vm_compute in ("<<<M1401>>>" ++ check (runes_of_ascii "
+char[]
+    falsey { Header@calculatedFrom(""packet""  ) , char[
+    0123456789 ] packetx
+    , } // `tick` ""quote"" 'q'")).
+Eval vm_compute in ("<<<M1551>>>" ++ check (runes_of_ascii "packet
+//	t
+// trailing space 
+_x {
+// packet A { u8 x, }
+// c
+char[
+3
+    ] u8x @lengthOf(
+u8x ) , @calculatedFrom(")).
+Eval vm_compute in ("<<<M1486>>>" ++ check (runes_of_ascii "
+packet
+    falsey { Header@calculatedFrom(""packet""  ) , char[
+    0123456789 ] " ++ [21517; 23383]%N ++ runes_of_ascii "
+    , } // `tick` ""quote"" 'q'")).
+Eval vm_compute in ("<<<M1422>>>" ++ check (runes_of_ascii "
+packet
+    falsey { Header@calculatedFrom(  ) , char[
+    0123456789 ] packetx
+    , } // `tick` ""quote"" 'q'")).
+Eval vm_compute in ("<<<M864>>>" ++ check (runes_of_ascii "options	{ T = // packet A { u8 x, }
+true;_x = false	; A
+= ""{,}"" ; leftPad=	zchar[ 0 ] ; trueish=
+1 ;//
+}")).
+Eval vm_compute in ("<<<M4565>>>" ++ check (runes_of_ascii "options {
+    u = uint16
+    i8i8 = i8;
+    string_ = false;
+    asx = true
+    lengthOf = 0123456789;
+}")).
+Eval vm_compute in ("<<<M3601>>>" ++ check (runes_of_ascii "packet FooBar {
+    u8 a,
+}
+packet foo_bar {
+    u16 b,
+}
+root packet R {
+    FooBar,
+    foo_bar,
+}
+")).
+Eval vm_compute in ("<<<M26>>>" ++ check (runes_of_ascii "options // " ++ [27880; 37322]%N ++ runes_of_ascii "
+{Packet = 4294967296
+; i64_  = // c
+""1"" ;	Z9_ = ""abc"" ; options1 =
+""a\\""
+; o=0  ; }")).
+Eval vm_compute in ("<<<M2960>>>" ++ check (runes_of_ascii "packet A {
+  match k as n {
+    [""a"", ""bb"", 007, ""d"", ""e"", 66, ""g"", ""h"", 9] : B
+    2 : C
+  },
+}")).
+Eval vm_compute in ("<<<M998>>>" ++ check (runes_of_ascii "  MetaData stringy { zchar[ 4294967296
+] charz , string// `tick` ""quote"" 'q'
+x_y_z
+    ,  }
+
+")).
+Eval vm_compute in ("<<<M2274>>>" ++ check (runes_of_ascii "options
+{ } options { BodyLength= u16 Header= f64 ; u128 string
+    true
+    ; } // a // b")).
+Eval vm_compute in ("<<<M4440>>>" ++ check (runes_of_ascii "MetaData 	 // c
+  	body {i64 pack
+`it's`	,}
+packet
+
+stringy
+	{
+int16  calculatedFrom,	}
+")).
+Eval vm_compute in ("<<<M3289>>>" ++ check (runes_of_ascii "MetaData float { float64 charz `
+` , } root packet chars // c
+{ @rightPad ( '0' ) Foo , }")).
+Eval vm_compute in ("<<<M3500>>>" ++ check (runes_of_ascii "packet chars { } packet MetaDataX { @tag(
+// c
+42 ) i16 string_ , repeat x `say ""hi""` , }")).
+Eval vm_compute in ("<<<M2272>>>" ++ check (runes_of_ascii "options
+{ } options { BodyLength= u16 Header= f64 ; u128 = =
+    true
+    ; } // a // b")).
+Eval vm_compute in ("<<<M2929>>>" ++ check (runes_of_ascii "packet A {
+  match k as n {
+    [""a"", 22, ""c c"", 4, ""e"", 66, ""g""] : B,
+    2 : C
+  },
+}")).
+Eval vm_compute in ("<<<M2278>>>" ++ check (runes_of_ascii "options
+{ } options { BodyLength= u16 Header= f64 ; u128 =
+    ;
+    true } // a // b")).
+Eval vm_compute in ("<<<M3240>>>" ++ check (runes_of_ascii "packet metadata { Logon { A `" ++ [28040; 24687; 31867; 22411]%N ++ runes_of_ascii "` , tag o , } , zchar
+// c
+len `// not a comment` , }")).
+Eval vm_compute in ("<<<M3431>>>" ++ check (runes_of_ascii "packet o // c
+{ repeat Logon uint8x , } options { asx = zchar[ 3 ] stringy = '\x00' }")).
+Eval vm_compute in ("<<<M3463>>>" ++ check (runes_of_ascii "packet o { repeat Logon uint8x , } options { asx = zchar[ 3 ] stringy = '\x00' // c
+}")).
+Eval vm_compute in ("<<<M2921>>>" ++ check (runes_of_ascii "packet A {
+  match k as n {
+    [""a"", ""bb"", 007, ""d"", ""e"", 66] : B
+    2 : C
+  },
+}")).
+Eval vm_compute in ("<<<M3406>>>" ++ check (runes_of_ascii "MetaData body { i64 pack `it's` , // c
+} packet stringy { int16 calculatedFrom , }")).
+Eval vm_compute in ("<<<M3589>>>" ++ check (runes_of_ascii "packet orderItem {
+    u8 a,
+}
+root packet newOrder {
+    orderItem,
+    u8 x,
+}
+")).
+Eval vm_compute in ("<<<M3863>>>" ++ check (runes_of_ascii "packet 
+
+//	t
+	lengthOf
+{
+@tag(
+3
+	)	@lengthOf( lengthOf ) u64 options1,  }
+")).
+Eval vm_compute in ("<<<M885>>>" ++ check (runes_of_ascii "
+packet msg_type { @tag(// " ++ [27880; 37322]%N ++ runes_of_ascii "
+00 //	t
+)
+zchar[ 0123456789 ] //	t
+rootA	, }")).
+Eval vm_compute in ("<<<M451>>>" ++ check (runes_of_ascii "options{ } root
+packet
+    packetx {
+// `tick` ""quote"" 'q'
+// " ++ [128512]%N ++ runes_of_ascii " emoji
+}
+")).
+Eval vm_compute in ("<<<M1919>>>" ++ check (runes_of_ascii "MetaData
     u { }  options {
 // c
 // @lengthOf(
-float = int8 ;rootA =false ; As =	int16 // `tick` ""quote"" 'q'
-repeatCount")).
-Eval vm_compute in ("<<<M3315>>>" ++ check (runes_of_ascii "root packet
-// c
-matchKey { zchar[ 3 ] pack @calculatedFrom( ""a	b"" ) `doc` , } options { } MetaData A { int8 msg_type , }")).
-Eval vm_compute in ("<<<M3347>>>" ++ check (runes_of_ascii "root packet matchKey { zchar[ 3 ] pack @calculatedFrom( ""a	b"" ) `doc` , } options { } MetaData
-// c
-A { int8 msg_type , }")).
-Eval vm_compute in ("<<<M3927>>>" ++ check (runes_of_ascii "  packet
-matchKey	// @lengthOf(
-    {	// packet A { u8 x, }
-		@leftPad
-    (
+float = int8 ;rootA =")).
+Eval vm_compute in ("<<<M4595>>>" ++ check (runes_of_ascii "
 
-    '0' )
-int16
-    options1
+  root
+    packet 
+P{ hdr	{
+
+    u8
+	a
+
+    ,
+
+} ,
+
+u8 x
+,}
+
+")).
+Eval vm_compute in ("<<<M3708>>>" ++ check (runes_of_ascii "root
+
+    packet
+    u128 {
+    chars
+
+    `it's`
+,	} 
+
+// c
+")).
+Eval vm_compute in ("<<<M103>>>" ++ check (runes_of_ascii "
+packet float {
+} MetaData As { char[]
+    trueish , }
+// " ++ [27880; 37322]%N ++ runes_of_ascii "
+")).
+Eval vm_compute in ("<<<M3942>>>" ++ check (runes_of_ascii "packet
+
+// a // b
+matchKey 
+{ 
+@tag(//
+
+0
+    )repeat
+u
 ,
-
-}
+}")).
+Eval vm_compute in ("<<<M3365>>>" ++ check (runes_of_ascii "packet // c
+x { @rightPad ( ) repeat roots Logon `doc` , }")).
+Eval vm_compute in ("<<<M3172>>>" ++ check (runes_of_ascii "packet A { @tag(1) // a
+ @leftPad('0') // b
+ char[4] x, }")).
+Eval vm_compute in ("<<<M165>>>" ++ check (runes_of_ascii "packet x
+{ @lengthOf( x_y_z )
+BodyLength tag // c
+,}
 ")).
-Eval vm_compute in ("<<<M1440>>>" ++ check (runes_of_ascii "
-packet
-    falsey { Header@calculatedFrom(""packet""  ) , ""{,}""
-    0123456789 ] packetx
-    , } // `tick` ""quote"" 'q'")).
-Eval vm_compute in ("<<<M3051>>>" ++ check (runes_of_ascii "packet A {
-    match k as n {
-        ""x\
-y"" : B,
-        [""x\
-y"", 1] : C,
-        [1,2,3,4,5,""x\
-y""] : D,
-    },
-}")).
-Eval vm_compute in ("<<<M814>>>" ++ check (runes_of_ascii "packet MetaDataX // c
-{
-i8i8  @calculatedFrom( ""a\""b"") `
-`
-    ,@calculatedFrom(""a\\"" )leftPad , }
-// " ++ [128512]%N ++ runes_of_ascii " emoji
-")).
-Eval vm_compute in ("<<<M4128>>>" ++ check (runes_of_ascii "packet
-
-    metadata	{Logon{ A 	 // c
-    	`" ++ [28040; 24687; 31867; 22411]%N ++ runes_of_ascii "`
-
-,
-tag o 
-, }	,
-
-zchar len
-
-    `// not a comment`
-	,	}")).
-Eval vm_compute in ("<<<M3033>>>" ++ check (runes_of_ascii "packet A {
-    u16 len @lengthOf(body) `x
-`,
-    u32 crc @calculatedFrom(""CRC32"") `x
-`,
-    string body,
-}")).
-Eval vm_compute in ("<<<M3028>>>" ++ check (runes_of_ascii "packet A {
-    Inner {
-        u8 x `a
-
-b`,
-        Deep {
-            u8 y `a
-
-b`,
-        },
-    },
-}")).
-Eval vm_compute in ("<<<M4033>>>" ++ check (runes_of_ascii "options {
-    _x = true
-}
-
-options {
-    o = u64;
-    chars = ""\n""
-}
-
-root packet Pad {
-    chars,
-}")).
-Eval vm_compute in ("<<<M3016>>>" ++ check (runes_of_ascii "packet A {
-    Inner {
-        u8 x `
-`,
-        Deep {
-            u8 y `
-`,
-        },
-    },
-}")).
-Eval vm_compute in ("<<<M846>>>" ++ check (runes_of_ascii "packet
-// @lengthOf(
-// " ++ [128512]%N ++ runes_of_ascii " emoji
-len{ @calculatedFrom( ""it's"")
-    calculatedFrom msg_type
-, }
-")).
-Eval vm_compute in ("<<<M2953>>>" ++ check (runes_of_ascii "packet A {
-  match k as n {
-    [1, ""bb"", 007, ""d"", 5, ""f"", 7, ""h"", 9] : B,
-    2 : C
-  },
-}")).
-Eval vm_compute in ("<<<M3306>>>" ++ check (runes_of_ascii "MetaData float { float64 charz `
-` , } root packet chars { @rightPad ( '0' ) Foo , }
-// c
-")).
-Eval vm_compute in ("<<<M3283>>>" ++ check (runes_of_ascii "MetaData float { float64 charz `
-` , } // c
-root packet chars { @rightPad ( '0' ) Foo , }")).
-Eval vm_compute in ("<<<M3494>>>" ++ check (runes_of_ascii "packet chars { } packet
-// c
-MetaDataX { @tag( 42 ) i16 string_ , repeat x `say ""hi""` , }")).
-Eval vm_compute in ("<<<M2217>>>" ++ check (runes_of_ascii "options
-{ } } options { BodyLength= u16 Header= f64 ; u128 =
-    true
-    ; } // a // b")).
-Eval vm_compute in ("<<<M2301>>>" ++ check (runes_of_ascii "options
-{ } options { BodyLength= u16 Header= f64 ; u128 =
-   | true
-    ; } // a // b")).
-Eval vm_compute in ("<<<M2233>>>" ++ check (runes_of_ascii "options
-{ } options { =BodyLength u16 Header= f64 ; u128 =
-    true
-    ; } // a // b")).
-Eval vm_compute in ("<<<M3233>>>" ++ check (runes_of_ascii "packet metadata { Logon { A `" ++ [28040; 24687; 31867; 22411]%N ++ runes_of_ascii "` , tag o , // c
-} , zchar len `// not a comment` , }")).
-Eval vm_compute in ("<<<M2271>>>" ++ check (runes_of_ascii "options
-{ } options { BodyLength= u16 Header= f64 ; u128 
-    true
-    ; } // a // b")).
-Eval vm_compute in ("<<<M3453>>>" ++ check (runes_of_ascii "packet o { repeat Logon uint8x , } options { asx = zchar[ // c
-3 ] stringy = '\x00' }")).
-Eval vm_compute in ("<<<M965>>>" ++ check (runes_of_ascii "root
-packet roots
-{
-    // " ++ [128512]%N ++ runes_of_ascii " emoji
-    calculatedFrom // c
-x_y_z ,
-    } // a // b")).
-Eval vm_compute in ("<<<M3398>>>" ++ check (runes_of_ascii "MetaData body { // c
-i64 pack `it's` , } packet stringy { int16 calculatedFrom , }")).
-Eval vm_compute in ("<<<M2914>>>" ++ check (runes_of_ascii "packet A {
-  match k as n {
-    [1, ""bb"", 007, ""d"", 5, ""f""] : B,
-    2 : C
-  },
-}")).
-Eval vm_compute in ("<<<M3056>>>" ++ check (runes_of_ascii "packet A {
-    u32 crc @calculatedFrom(""\
-""),
-    @calculatedFrom(""\
-"") u8 y,
-}")).
-Eval vm_compute in ("<<<M1307>>>" ++ check (runes_of_ascii "options // `tick` ""quote"" 'q'
-{ stringy='\x00'  ;
-msg_type
-= float32
-}
-
-")).
-Eval vm_compute in ("<<<M2153>>>" ++ check (runes_of_ascii "options{
-_x
-= true
-} options
-{ o	= /// triple
-false
-    ; chars
-= ""\n""")).
-Eval vm_compute in ("<<<M4379>>>" ++ check (runes_of_ascii "options {
-    _x = true
-}
-
-options {
-    o = false;
-    chars = ""\n""
-}")).
-Eval vm_compute in ("<<<M2876>>>" ++ check (runes_of_ascii "packet A {
-  match k as n {
-    [1, ""bb"", 007] : B
-    2 : C
-  },
-}")).
-Eval vm_compute in ("<<<M526>>>" ++ check (runes_of_ascii "//
-MetaData o { i16 zchar // a // b
-, char[//	t
-00
-] string_	, }")).
-Eval vm_compute in ("<<<M669>>>" ++ check (runes_of_ascii "packet calculatedFrom
-{ u32	metadata @lengthOf( Logon
-)
-, }
-")).
-Eval vm_compute in ("<<<M2340>>>" ++ check (runes_of_ascii "// c
-packet x { @lengthOf( metadata ) repeat lengthOf
-,a1{")).
-Eval vm_compute in ("<<<M3373>>>" ++ check (runes_of_ascii "packet x { @rightPad ( // c
-) repeat roots Logon `doc` , }")).
-Eval vm_compute in ("<<<M4218>>>" ++ check (runes_of_ascii "root packet A {
+Eval vm_compute in ("<<<M3169>>>" ++ check (runes_of_ascii "packet A { B { // a
+ u8 x, // b
+ } // c
+ , // d
+ }")).
+Eval vm_compute in ("<<<M3011>>>" ++ check (runes_of_ascii "MetaData M {
     u8 x `a
-            b
-          c`,
-}")).
-Eval vm_compute in ("<<<M2870>>>" ++ check (runes_of_ascii "packet A { Inner { match k as n { [1,22] : B, }, }, }")).
-Eval vm_compute in ("<<<M3686>>>" ++ check (runes_of_ascii "// c
-MetaData calculatedFrom {
-    Foo msg_type,
-}")).
-Eval vm_compute in ("<<<M3029>>>" ++ check (runes_of_ascii "MetaData M {
-    u8 x `a
-
 b`,
     T t `a
-
 b`,
 }")).
-Eval vm_compute in ("<<<M2843>>>" ++ check (runes_of_ascii ", float32 int8 `" ++ [233]%N ++ runes_of_ascii "` char[] } { u16 { options }")).
-Eval vm_compute in ("<<<M3179>>>" ++ check (runes_of_ascii "packet A { char[ // a
- 3 // b
- ] // c
- x, }")).
-Eval vm_compute in ("<<<M945>>>" ++ check (runes_of_ascii "options {  Packet
-=	0 trueish =
-i8
-;	}
+Eval vm_compute in ("<<<M2836>>>" ++ check (runes_of_ascii "u16 options zchar[ char[] match i32 42 repeat")).
+Eval vm_compute in ("<<<M728>>>" ++ check (runes_of_ascii "options { options1 = float64
+    ; } // " ++ [27880; 37322]%N)).
+Eval vm_compute in ("<<<M2800>>>" ++ check (runes_of_ascii "packet int32 options i32 MetaData packet")).
+Eval vm_compute in ("<<<M3958>>>" ++ check (runes_of_ascii "MetaData packetx {
+    zchar[7] u128,
+}")).
+Eval vm_compute in ("<<<M243>>>" ++ check (runes_of_ascii "// c
+root packet
+calculatedFrom { }
 ")).
-Eval vm_compute in ("<<<M1715>>>" ++ check (runes_of_ascii "options { trueish = ""`tick`"" ; string_=")).
-Eval vm_compute in ("<<<M3180>>>" ++ check (runes_of_ascii "packet A { u8 x,// a
-
-
-// b
-
- u8 y, }")).
-Eval vm_compute in ("<<<M2561>>>" ++ check (runes_of_ascii "packet A { repeat x @lengthOf(y), }")).
-Eval vm_compute in ("<<<M3174>>>" ++ check (runes_of_ascii "packet A { @tag( // a
- 1 ) u8 x, }")).
-Eval vm_compute in ("<<<M2587>>>" ++ check (runes_of_ascii "packet A { x @lengthOf(y) `d`, }")).
-Eval vm_compute in ("<<<M1705>>>" ++ check (runes_of_ascii "options { trueish = ""`tick`"" ;")).
-Eval vm_compute in ("<<<M1326>>>" ++ check (runes_of_ascii "options { matchKey	='\x00';	}")).
-Eval vm_compute in ("<<<M2643>>>" ++ check (runes_of_ascii "packet A { } x packet B { }")).
-Eval vm_compute in ("<<<M3263>>>" ++ check (runes_of_ascii "root packet pack { }
-// c
+Eval vm_compute in ("<<<M2695>>>" ++ check (runes_of_ascii "@&%t""ZYSa""[h-SeOaEg6\yrr.ozSs#Cy5AO")).
+Eval vm_compute in ("<<<M931>>>" ++ check (runes_of_ascii "root packet stringy {
+_x Pad , }
 ")).
-Eval vm_compute in ("<<<M2291>>>" ++ check (runes_of_ascii "options
-{ } options { B")).
-Eval vm_compute in ("<<<M2639>>>" ++ check (runes_of_ascii "root root packet A { }")).
-Eval vm_compute in ("<<<M2666>>>" ++ check (runes_of_ascii "options { a = `d`; }")).
-Eval vm_compute in ("<<<M2724>>>" ++ check (runes_of_ascii "8""" ++ [65533; 65533; 65533; 24; 65533; 26]%N ++ runes_of_ascii "fLV" ++ [65533; 65533]%N ++ runes_of_ascii "J" ++ [19; 914; 65533; 27; 918]%N)).
-Eval vm_compute in ("<<<M2775>>>" ++ check ([16]%N ++ runes_of_ascii "t" ++ [65533; 65533; 65533]%N ++ runes_of_ascii "N" ++ [65533; 65533]%N ++ runes_of_ascii "c" ++ [65533; 2]%N ++ runes_of_ascii "Y" ++ [65533]%N ++ runes_of_ascii "M+" ++ [65533; 65533]%N)).
-Eval vm_compute in ("<<<M3140>>>" ++ check (runes_of_ascii "packet A {
+Eval vm_compute in ("<<<M3568>>>" ++ check (runes_of_ascii "root packet P {
+    string s,
 }
-// c" ++ [6158]%N)).
-Eval vm_compute in ("<<<M3103>>>" ++ check (runes_of_ascii "packet A {
-}// c" ++ [8239]%N)).
-Eval vm_compute in ("<<<M2567>>>" ++ check (runes_of_ascii "packet A { u8 }")).
-Eval vm_compute in ("<<<M958>>>" ++ check (runes_of_ascii "options	{ }
 ")).
+Eval vm_compute in ("<<<M2760>>>" ++ check (runes_of_ascii "RhCe{*)SOkbY3jNAmCPh}|2~2jWOF^")).
+Eval vm_compute in ("<<<M2814>>>" ++ check (runes_of_ascii " y!?qy-V\MAcTKR_L,7(1t1T$HN/[")).
+Eval vm_compute in ("<<<M2699>>>" ++ check (runes_of_ascii "9fg42cfm:PE.""_7ZnAcePs7rsPF")).
+Eval vm_compute in ("<<<M3855>>>" ++ check (runes_of_ascii "
+
+  packet
+
+x {
+
+    }
+")).
+Eval vm_compute in ("<<<M899>>>" ++ check (runes_of_ascii "
+MetaData Pad
+    {  }
+")).
+Eval vm_compute in ("<<<M171>>>" ++ check (runes_of_ascii "packet options1 {  }
+
+")).
+Eval vm_compute in ("<<<M733>>>" ++ check (runes_of_ascii "packet  Z9_{
+    }
+")).
+Eval vm_compute in ("<<<M2573>>>" ++ check (runes_of_ascii "packet A { x y z, }")).
+Eval vm_compute in ("<<<M2662>>>" ++ check (runes_of_ascii "options { a = 1, }")).
+Eval vm_compute in ("<<<M3135>>>" ++ check (runes_of_ascii "packet A {
+}
+// c" ++ [65279]%N)).
+Eval vm_compute in ("<<<M3098>>>" ++ check (runes_of_ascii "packet A {
+}// c" ++ [8233]%N)).
+Eval vm_compute in ("<<<M1380>>>" ++ check (runes_of_ascii "packet x  { }
+")).
+Eval vm_compute in ("<<<M248>>>" ++ check (runes_of_ascii "
+options
+{}")).
 Eval vm_compute in ("<<<M2629>>>" ++ check (runes_of_ascii "packet { }")).
-Eval vm_compute in ("<<<M4110>>>" ++ check (runes_of_ascii "  // c
-")).
-Eval vm_compute in ("<<<M2456>>>" ++ check (runes_of_ascii "option")).
-Eval vm_compute in ("<<<M2511>>>" ++ check (runes_of_ascii """a\""""")).
-Eval vm_compute in ("<<<M2460>>>" ++ check (runes_of_ascii "root")).
-Eval vm_compute in ("<<<M2475>>>" ++ check (runes_of_ascii "'1'")).
-Eval vm_compute in ("<<<M2453>>>" ++ check (runes_of_ascii "as")).
-Eval vm_compute in ("<<<M2677>>>" ++ check (runes_of_ascii ",")).
+Eval vm_compute in ("<<<M723>>>" ++ check (runes_of_ascii "//x
+ 	 ")).
+Eval vm_compute in ("<<<M2691>>>" ++ check (runes_of_ascii "MLpc5K")).
+Eval vm_compute in ("<<<M3064>>>" ++ check (runes_of_ascii "// c" ++ [12288]%N)).
+Eval vm_compute in ("<<<M2517>>>" ++ check (runes_of_ascii """//""")).
+Eval vm_compute in ("<<<M2530>>>" ++ check (runes_of_ascii "1.5")).
+Eval vm_compute in ("<<<M2531>>>" ++ check (runes_of_ascii "-1")).
+Eval vm_compute in ("<<<M2852>>>" ++ check ([31]%N)).
